@@ -6,22 +6,30 @@ import json
 import os
 
 from ..core import Ctx
-from ..match import arg, call_name, calls, facts_at, has_fact, local_defs, mentions, resolve, same_expr, single_def
-from ..model import AnalysisError, ClassInfo, FuncInfo, chain, norm, strip_cast, walk_no_nested
+from ..match import (Fact, arg, call_name, calls, fact_of, facts_at, has_fact, local_defs, mentions, resolve, same_expr,
+                     single_def)
+from ..model import NOCONST, AnalysisError, ClassInfo, FuncInfo, chain, norm, strip_cast, walk_no_nested
 
 LEVEL = "other"
 EXPLANATION = (
     "Static rules over every site: (a) in both authenticating decorators and _ez_unpack_auth the call of the user "
-    "handler / the return is dominated by a truthy signature check whose inputs are def-use linked to the datagram "
-    "parameter and to the key unpacked from that datagram; (b) _verify_signature verifies data[:-L] with data[-L:] and "
-    "the key carried in the datagram, L derived from that key; (c) the Peer handed on is built from that key only; "
+    "handler / the return is dominated by a positive signature verdict whose inputs are def-use linked to the datagram "
+    "parameter and to the key unpacked from that datagram; (b) _verify_signature - and every override of it in an overlay "
+    "class, which is what `self._verify_signature` dispatches to - verifies data[:-L] with data[-L:] and the key carried "
+    "in the datagram, L derived from that key; (c) the Peer handed on is built from that key only; "
     "(d) sign side covers the whole packet; (e) every handler registered by every overlay class (and every override in "
     "a subclass) keeps the authentication class frozen from the reviewed tree; (f) decode_map is dispatched only by "
     "Community.on_packet and __wrapped__ is never used; (g) Community.on_packet calls a decode_map handler only after "
     "comparing the first 22 bytes of the very datagram it hands on with the overlay's own prefix (a signature covers the "
     "prefix, which binds a message to one overlay only if the receiver checks it). A signature / prefix check spelled as "
-    "an `assert` does not count (compiled away under -O). Expressions are compared after substituting single-assignment "
-    "locals, values that travel through locals are followed by reaching definitions on the CFG. "
+    "an `assert` does not count (compiled away under -O). Constructs are recognised by what they compute: expressions "
+    "are compared after substituting single-assignment locals and composing slices of slices, values that travel through "
+    "locals are followed by reaching definitions on the CFG; which parameter of _verify_signature is the datagram / the "
+    "key and where its result carries verdict and remainder is read off the method itself; a guard may reach the site "
+    "through a tag (a local / a helper's result that is tested later: the facts common to all ways the tag can have got "
+    "a value compatible with the test), through the normal completion of a helper that returns only after the check, "
+    "or through a local closure that is itself wrapped by a directly verifying decorator; helpers are analysed with "
+    "their parameters bound to the caller's arguments. "
     "Decides the dataflow/dominance facts, not the cryptography."
 )
 
@@ -81,6 +89,8 @@ def _alternatives(fi: FuncInfo, e: ast.AST, depth: int = 4) -> list[ast.AST]:
     e = strip_cast(e)
     if depth <= 0:
         return [e]
+    if isinstance(e, ast.NamedExpr):
+        return _alternatives(fi, e.value, depth)            # (x := v) has the value of v
     if isinstance(e, ast.BoolOp) and isinstance(e.op, ast.Or):
         return [x for v in e.values for x in _alternatives(fi, v, depth - 1)]
     if isinstance(e, ast.IfExp):
@@ -166,10 +176,585 @@ def _in_assert(e: ast.AST) -> bool:
     return isinstance(enclosing_stmt(e), ast.Assert)
 
 
+# ------------------------------------------------------------------------------------------ facts through decisions
+# A guard need not dominate the guarded site as a branch of its own.  After a decision / action split the test sits where
+# a tag is computed (`msg_id = data[22] if <test> else None`, `if <test>: tag = ... else: tag = None`, or a helper that
+# returns the tag / a verdict) and the site is only dominated by a test of the tag (`if msg_id is None: return`).  What
+# holds at the site is then: for every way the tag can have obtained a value that passes the test of the tag, the facts
+# under which it obtained that value.  The functions below compute exactly that (facts common to all surviving cases).
+def _static_value(ctx: Ctx, fi: FuncInfo, e):
+    """('const', python value) / ('display', number of items) for literals, displays and module constants, else None"""
+    e = strip_cast(e)
+    if isinstance(e, ast.Constant):
+        return "const", e.value
+    if isinstance(e, (ast.Tuple, ast.List, ast.Set)):
+        return None if any(isinstance(x, ast.Starred) for x in e.elts) else ("display", len(e.elts))
+    if isinstance(e, ast.Dict):
+        return None if any(k is None for k in e.keys) else ("display", len(e.keys))
+    if isinstance(e, ast.Name) and e.id not in fi.params() and not local_defs(fi, e.id):
+        v = ctx.repo.resolve_const(fi.module, e, fi.cls)
+        if v is not NOCONST:
+            return "const", v
+    return None
+
+
+def _contradicts(ctx: Ctx, fi: FuncInfo, f: Fact, on_left: bool, value) -> bool:
+    """can `value` (an expression, or None = unknown) definitely NOT be what the tested operand of fact f evaluated to?"""
+    if value is None:
+        return False
+    sv = _static_value(ctx, fi, value)
+    if sv is None:
+        return False
+    kind, v = sv
+    if f.op == "truthy":
+        truth = bool(v) if kind == "const" else v > 0
+        return truth != f.pos
+    other = f.right if on_left else f.left
+    ov = _static_value(ctx, fi, other) if other is not None else None
+    if ov is None or ov[0] != "const":
+        return False
+    o = ov[1]
+    if f.op == "is":
+        if o is None or o is True or o is False:
+            same = (kind == "const" and v is o)
+            return same != f.pos
+        return False
+    if f.op == "eq" and kind == "const":
+        try:
+            return (v == o) != f.pos
+        except Exception:  # noqa: BLE001
+            return False
+    return False
+
+
+def _subst_names(e: ast.AST, mapping: dict[str, ast.AST]):
+    """copy of e with every Name in mapping replaced by (a copy of) the mapped expression"""
+    from ..model import clone
+    if isinstance(e, ast.Name):
+        return clone(mapping[e.id]) if e.id in mapping else e
+    if not isinstance(e, ast.AST) or isinstance(e, _OWN_SCOPE) or not e._fields:
+        return e
+    new = type(e)()
+    for f in e._fields:
+        v = getattr(e, f, None)
+        if isinstance(v, list):
+            v = [_subst_names(x, mapping) if isinstance(x, ast.AST) else x for x in v]
+        elif isinstance(v, ast.AST):
+            v = _subst_names(v, mapping)
+        setattr(new, f, v)
+    return ast.copy_location(new, e)
+
+
+def _free_names(e: ast.AST) -> set[str]:
+    return {n.id for n in ast.walk(e) if isinstance(n, ast.Name)}
+
+
+def _local_names(fi: FuncInfo) -> set[str]:
+    cached = getattr(fi, "_c01_locals", None)
+    if cached is None:
+        cached = set(fi.params())
+        for n in walk_no_nested(fi.node):
+            if isinstance(n, ast.Name) and isinstance(n.ctx, (ast.Store, ast.Del)):
+                cached.add(n.id)
+            elif isinstance(n, ast.ExceptHandler) and n.name:
+                cached.add(n.name)
+        try:
+            fi._c01_locals = cached      # type: ignore[attr-defined]
+        except Exception:  # noqa: BLE001
+            pass
+    return cached
+
+
+def _own_facts(cfg, node) -> list[tuple[ast.AST, bool]]:
+    """(atom, polarity) that dominate a CFG node through real branches (no assert, no loop heads)"""
+    out = []
+    if not cfg.reachable(node):
+        return out
+    for a, p in cfg.facts_at(node):
+        if isinstance(a, (ast.For, ast.AsyncFor, ast.While)) or _in_assert(a):
+            continue
+        out.append((a, p))
+    return out
+
+
+def _stable_after(ctx: Ctx, fi: FuncInfo, cfg, atom: ast.AST, since, tag: str | None) -> bool:
+    """the locals read by `atom` cannot be re-assigned once CFG node `since` has been passed (attributes are taken to
+    be stable, exactly as for a fact that dominates the site directly)"""
+    later = None
+    for name in _free_names(atom):
+        if name == tag:
+            return False
+        if name not in _local_names(fi):
+            continue
+        defs = local_defs(fi, name)
+        if not defs:
+            continue                       # unmodified parameter
+        if later is None:
+            later = cfg.reach([v for v, lab in since.succ])
+        for st, _, _ in defs:
+            if any(n in later for n in cfg.nodes_for(st)):
+                return False
+    return True
+
+
+def _return_cases(ctx: Ctx, fi: FuncInfo, call: ast.Call, depth: int) -> list | None:
+    """
+    Cases of the value of a call to helper(s) of this repository, in the CALLER's terms: [(value | None, [(atom, pol)])],
+    one per `return` of every possible target (facts: what dominates that return in the helper, parameters replaced by
+    the caller's arguments).  None when the call cannot be followed.
+    """
+    if depth <= 0:
+        return None
+    targets = _targets(ctx, fi, call)
+    if not targets or len(targets) > 3:
+        return None
+    out = []
+    for h in targets:
+        if not isinstance(h, FuncInfo) or h.node is fi.node or h.is_async or isinstance(h.node, ast.Lambda):
+            return None
+        if h.name == "__init__" and not (isinstance(call.func, ast.Attribute) and call.func.attr == "__init__"):
+            return None                       # a constructor call: its value is the new object, not what __init__ returns
+        if any(isinstance(n, (ast.Yield, ast.YieldFrom)) for n in walk_no_nested(h.node)):
+            return None
+        if h.node.decorator_list and not all(chain(d) in ("staticmethod", "classmethod") for d in h.node.decorator_list):
+            return None
+        is_method = h.cls is not None and not any(chain(d) == "staticmethod" for d in h.node.decorator_list)
+        recv = call.func.value if isinstance(call.func, ast.Attribute) else None
+        bound = _bind_call(call, h, receiver=is_method)
+        if bound is None:
+            return None
+        mapping = dict(bound)
+        hp = h.params()
+        if is_method and hp:
+            if recv is None or (isinstance(recv, ast.Call) and chain(recv.func) == "super"):
+                recv = ast.Name(id="self", ctx=ast.Load())
+            mapping[hp[0]] = recv
+        hcfg = ctx.cfg(h)
+        hlocals = _local_names(h)
+
+        def to_caller(e, h=h, mapping=mapping, hlocals=hlocals):
+            """expression of the helper in the caller's terms, None when it reads helper state that has no caller name"""
+            x = _expand(h, e)
+            for name in _free_names(x):
+                if name in hlocals:
+                    if name not in mapping or not _is_param_unmodified(h, name):
+                        return None
+                elif name in _local_names(fi):
+                    return None                  # a global of the helper that is spelled like a local of the caller
+            return _subst_names(x, mapping)
+
+        rets = [n for n in walk_no_nested(h.node) if isinstance(n, ast.Return)]
+        ret_nodes = [n for r in rets for n in hcfg.nodes_for(r)]
+        if hcfg.exit in hcfg.reach(cut_nodes=ret_nodes):
+            out.append((ast.Constant(value=None), [], None))    # falls off the end: None, nothing known
+        for r in rets:
+            for rn in hcfg.nodes_for(r):
+                if not hcfg.reachable(rn):
+                    continue
+                base = _own_facts(hcfg, rn)
+                inner = [(ast.Constant(value=None), [], None)] if r.value is None \
+                    else _value_cases(ctx, h, hcfg, rn, r.value, depth - 1)
+                for v, fs, _o in inner:
+                    facts = []
+                    for a, p in base + fs:
+                        t = to_caller(a)
+                        if t is not None:
+                            facts.append((t, p))
+                    tv = None if v is None else (v if isinstance(v, ast.Constant) else to_caller(v))
+                    out.append((tv, facts, None))
+    return out
+
+
+def _value_cases(ctx: Ctx, fi: FuncInfo, cfg, node, e: ast.AST, depth: int = 3) -> list:
+    """
+    [(value expression | None = unknown, [(atom, pol)], origin)]: every way `e`, evaluated on entry to CFG node `node`,
+    can have obtained its value, with the facts that held where it obtained it (in addition to what dominates `node`);
+    origin: the CFG node of this function at which the value expression was evaluated (None: at `node` itself).
+    """
+    e = strip_cast(e)
+    if depth <= 0:
+        return [(e, [], None)]
+    if isinstance(e, ast.IfExp):
+        from ..match import _atoms_with_polarity
+        out = []
+        for branch, pol in ((e.body, True), (e.orelse, False)):
+            extra = [(f.atom, _atom_pol(f)) for f in _atoms_with_polarity(e.test, pol)]
+            for v, fs, o in _value_cases(ctx, fi, cfg, node, branch, depth - 1):
+                out.append((v, extra + fs, o))
+        return out
+    if isinstance(e, ast.Name) and e.id not in fi.params() and local_defs(fi, e.id):
+        defs = {}
+        for st, val, idx in local_defs(fi, e.id):
+            ns = cfg.nodes_for(st)
+            if not ns:
+                return [(None, [], None)]
+            for n in ns:
+                defs[n] = (st, val, idx)
+        out = []
+        for dn in _reaching(defs, cfg.entry).get(node, set()):
+            if dn is None:
+                continue                         # unassigned on this path: the read raises
+            st, val, idx = defs[dn]
+            here = _own_facts(cfg, dn)
+            if val is None or isinstance(st, ast.AugAssign):
+                out.append((None, here, dn))
+                continue
+            for v, fs, o in _value_cases(ctx, fi, cfg, dn, val, depth - 1):
+                if idx is not None:
+                    if isinstance(v, (ast.Tuple, ast.List)) and idx < len(v.elts) and not any(isinstance(x, ast.Starred) for x in v.elts):
+                        v = v.elts[idx]
+                    else:
+                        v = None
+                keep = [(a, p) for a, p in here + fs if _stable_after(ctx, fi, cfg, a, dn, e.id)]
+                out.append((v, keep, o if o is not None else dn))
+        return out
+    if isinstance(e, ast.Call):
+        cases = _return_cases(ctx, fi, e, depth)
+        if cases is not None:
+            return cases
+    return [(e, [], None)]
+
+
+def _atom_pol(f: Fact) -> bool:
+    """polarity of the ATOM (f.atom) that makes fact f hold: Fact folds `!=`, `not in`, `is not`, `>=`, ... into pos"""
+    a = f.atom
+    if isinstance(a, ast.Compare) and len(a.ops) == 1 and isinstance(a.ops[0], (ast.NotEq, ast.NotIn, ast.IsNot, ast.GtE, ast.LtE)):
+        return not f.pos
+    return f.pos
+
+
+def _facts_key(fi: FuncInfo, a: ast.AST, p: bool):
+    f = fact_of(a, p)
+    return (f.op, _xnorm(fi, f.left), None if f.right is None else _xnorm(fi, f.right), f.pos)
+
+
+def _common(fi: FuncInfo, cases: list) -> list[tuple[ast.AST, bool]]:
+    """facts present in every case (compared after expansion of single-assignment locals)"""
+    if not cases:
+        return []
+    keyed = [{_facts_key(fi, a, p): (a, p) for a, p in c[1]} for c in cases]
+    out = []
+    for k, ap in keyed[0].items():
+        if all(k in other for other in keyed[1:]):
+            out.append(ap)
+    return out
+
+
+def _derived(fact: Fact) -> Fact:
+    fact.derived = True          # type: ignore[attr-defined]
+    return fact
+
+
+def _fact_in_assert(f: Fact) -> bool:
+    return not getattr(f, "derived", False) and _in_assert(f.atom)
+
+
+def _site_facts(ctx: Ctx, fi: FuncInfo, cfg, site: ast.AST, rounds: int = 2) -> list[Fact]:
+    """
+    facts_at(site) plus the facts that follow from them through decisions:
+      * a dominating test of a local tag / of a helper's result  ->  what is common to all ways the tested value can have
+        been obtained that are compatible with the outcome of the test (a truthy / falsy outcome of a boolean expression
+        also gives the atoms of that expression),
+      * a helper call that must have completed normally before the site  ->  what dominates every return of the helper.
+    Derived facts never rest on an `assert`.
+    """
+    from ..match import _atoms_with_polarity
+    base = facts_at(cfg, site)
+    nodes = [n for n in cfg.nodes_for(site) if cfg.reachable(n)]
+    out = list(base)
+    seen = {_facts_key(fi, f.atom, _atom_pol(f)) for f in base}
+
+    def add(a, p) -> list[Fact]:
+        k = _facts_key(fi, a, p)
+        if k in seen:
+            return []
+        seen.add(k)
+        f = _derived(fact_of(a, p))
+        out.append(f)
+        return [f]
+
+    try:
+        work = [f for f in base if not _fact_in_assert(f)]
+        for rnd in range(rounds):
+            new: list[Fact] = []
+            for f in work:
+                for operand, on_left in ((f.left, True), (f.right, False)):
+                    if operand is None:
+                        continue
+                    operand = strip_cast(operand)
+                    derived_here = getattr(f, "derived", False)
+                    if isinstance(operand, ast.Name) and operand.id not in fi.params() and local_defs(fi, operand.id):
+                        if derived_here:
+                            continue
+                        cnodes = cfg.nodes_for(f.atom)
+                        if len(cnodes) != 1:
+                            continue
+                        cnode = cnodes[0]
+                        # the tag must not be re-assigned between its test and the site
+                        dnodes = [n for st, _, _ in local_defs(fi, operand.id) for n in cfg.nodes_for(st)]
+                        after_test = cfg.reach([v for v, lab in cnode.succ])
+                        if any(d in after_test and any(s in cfg.reach([d], cut_nodes=[cnode]) for s in nodes) for d in dnodes):
+                            continue
+                        cases = _value_cases(ctx, fi, cfg, cnode, operand)
+                    elif isinstance(operand, (ast.Call, ast.IfExp)) and not derived_here:
+                        cnodes = cfg.nodes_for(f.atom)
+                        if len(cnodes) != 1:
+                            continue
+                        cnode = cnodes[0]
+                        cases = _return_cases(ctx, fi, operand, 3) if isinstance(operand, ast.Call) \
+                            else _value_cases(ctx, fi, cfg, cnode, operand)
+                        if cases is None:
+                            continue
+                        cases = [(v, [(a, p) for a, p in fs if _stable_after(ctx, fi, cfg, a, cnode, None)], cnode)
+                                 for v, fs, _o in cases]
+                    else:
+                        continue
+                    alive = [c for c in cases if not _contradicts(ctx, fi, f, on_left, c[0])]
+                    if f.op == "truthy":
+                        # a truthy / falsy boolean expression: its atoms hold as well (where it was evaluated)
+                        grown = []
+                        for v, fs, o in alive:
+                            if v is not None and isinstance(v, (ast.BoolOp, ast.Compare, ast.UnaryOp)):
+                                tag = operand.id if isinstance(operand, ast.Name) else None
+                                fs = fs + [(g.atom, _atom_pol(g)) for g in _atoms_with_polarity(v, f.pos)
+                                           if _stable_after(ctx, fi, cfg, g.atom, o if o is not None else cnode, tag)]
+                            grown.append((v, fs, o))
+                        alive = grown
+                    for a, p in _common(fi, alive):
+                        new.extend(add(a, p))
+            # helper calls whose normal completion dominates the site
+            if rnd == 0:
+                for c in calls(fi):
+                    cn = cfg.nodes_for(c)
+                    if not cn or not nodes or any(n in cn for n in nodes):
+                        continue
+                    if not isinstance(c.func, (ast.Name, ast.Attribute)) or _is_vs_call(c):
+                        continue
+                    if isinstance(c.func, ast.Attribute) and not (isinstance(c.func.value, ast.Name)
+                                                                   and c.func.value.id in ("self", "cls")):
+                        continue
+                    if not all(cfg.must_complete(n, cn) for n in nodes):
+                        continue
+                    cases = _return_cases(ctx, fi, c, 2)
+                    if not cases:
+                        continue
+                    st_nodes = cn[0]
+                    for a, p in _common(fi, cases):
+                        if _stable_after(ctx, fi, cfg, a, st_nodes, None):
+                            new.extend(add(a, p))
+            work = new
+            if not work:
+                break
+    except (RecursionError, AnalysisError):
+        pass                      # nothing further can be derived: the facts found so far stand
+    return out
+
+
+# ------------------------------------------------------------------------------------------ slices / sums
+def _none_or_zero(e) -> bool:
+    return e is None or (isinstance(e, ast.Constant) and e.value == 0 and not isinstance(e.value, bool))
+
+
+def _is_length_call(e) -> bool:
+    """len(x) / <crypto>.get_signature_length(key): a length, never negative"""
+    return (isinstance(e, ast.Call) and not e.keywords and len(e.args) == 1 and not isinstance(e.args[0], ast.Starred)
+            and call_name(e) in ("len", "get_signature_length"))
+
+
+def _nonneg(e) -> bool:
+    if isinstance(e, ast.Constant):
+        return isinstance(e.value, int) and not isinstance(e.value, bool) and e.value >= 0
+    if _is_length_call(e):
+        return True
+    if isinstance(e, ast.BinOp) and isinstance(e.op, (ast.Add, ast.Mult)):
+        return _nonneg(e.left) and _nonneg(e.right)
+    return False
+
+
+def _neg_of_nonneg(e) -> bool:
+    return isinstance(e, ast.UnaryOp) and isinstance(e.op, ast.USub) and _nonneg(e.operand)
+
+
+def _simplify_slices(e):
+    """
+    Rebuilds `e` with slices of slices composed where that is an identity for every sequence X:
+      X[:u][k:]  ==  X[k:u]   for every k >= 0 (any u: the inner slice keeps a prefix, the outer one drops k items of it)
+      X[k:][:-n] ==  X[k:-n]  for every k >= 0, n >= 0 (keep all but the last n items of the suffix that starts at k)
+    k / n are recognised as non-negative only when they are sums / products of non-negative literals and lengths.
+    Never modifies its argument (shared sub-trees are rebuilt only when they change).
+    """
+    if not isinstance(e, ast.AST) or isinstance(e, _OWN_SCOPE) or not e._fields:
+        return e
+    changed = False
+    vals = {}
+    for f in e._fields:
+        v = getattr(e, f, None)
+        if isinstance(v, list):
+            nv = [_simplify_slices(x) if isinstance(x, ast.AST) else x for x in v]
+            changed = changed or any(a is not b for a, b in zip(nv, v))
+        elif isinstance(v, ast.AST):
+            nv = _simplify_slices(v)
+            changed = changed or nv is not v
+        else:
+            nv = v
+        vals[f] = nv
+    if changed:
+        new = type(e)()
+        for f, v in vals.items():
+            setattr(new, f, v)
+        e = ast.copy_location(new, e)
+    if isinstance(e, ast.Subscript) and isinstance(e.slice, ast.Slice) and isinstance(e.value, ast.Subscript) \
+            and isinstance(e.value.slice, ast.Slice) and e.slice.step is None and e.value.slice.step is None:
+        outer, inner, base = e.slice, e.value.slice, e.value.value
+        composed = None
+        if _none_or_zero(inner.lower) and outer.upper is None and outer.lower is not None and _nonneg(outer.lower):
+            composed = ast.Slice(lower=outer.lower, upper=inner.upper, step=None)
+        elif _none_or_zero(outer.lower) and inner.upper is None and outer.upper is not None and _neg_of_nonneg(outer.upper) \
+                and (inner.lower is None or _nonneg(inner.lower)):
+            composed = ast.Slice(lower=inner.lower, upper=outer.upper, step=None)
+        if composed is not None:
+            return ast.copy_location(ast.Subscript(value=base, slice=composed, ctx=ast.Load()), e)
+    return e
+
+
+def _sum_terms(e) -> tuple[int, list[str]]:
+    """`2 + len(k)`, `len(k) + 2`, `1 + len(k) + 1` -> (2, ['len(k)']): integer literals folded, other terms as sorted texts"""
+    if isinstance(e, ast.BinOp) and isinstance(e.op, ast.Add):
+        c1, t1 = _sum_terms(e.left)
+        c2, t2 = _sum_terms(e.right)
+        return c1 + c2, sorted(t1 + t2)
+    if isinstance(e, ast.Constant) and isinstance(e.value, int) and not isinstance(e.value, bool):
+        return e.value, []
+    return 0, [norm(e)]
+
+
+def _xs(fi: FuncInfo, e: ast.AST | None):
+    """fully expanded (single-assignment locals substituted) and slice-composed copy of e"""
+    return None if e is None else _simplify_slices(_expand(fi, e))
+
+
+# ------------------------------------------------------------------------------------------ calls: argument binding
+def _bind_call(call: ast.Call, callee: FuncInfo, *, receiver: bool) -> dict[str, ast.AST] | None:
+    """parameter name -> argument expression of `call` to `callee` (receiver: the first parameter is bound to the object
+    the method is called on and is left out).  None when the binding cannot be followed (*args / **kwargs at the call)."""
+    a = callee.node.args
+    pos = [x.arg for x in a.posonlyargs + a.args]
+    if receiver:
+        pos = pos[1:]
+    kwonly = [x.arg for x in a.kwonlyargs]
+    if any(isinstance(x, ast.Starred) for x in call.args) or any(k.arg is None for k in call.keywords):
+        return None
+    if len(call.args) > len(pos) and a.vararg is None:
+        return None
+    out: dict[str, ast.AST] = {}
+    for p, x in zip(pos, call.args):
+        out[p] = x
+    for k in call.keywords:
+        if k.arg in out or (k.arg not in pos and k.arg not in kwonly and a.kwarg is None):
+            return None
+        out[k.arg] = k.value
+    return out
+
+
+# ------------------------------------------------------------------------------------------ _verify_signature contract
+class _VSContract:
+    """
+    What a caller of `_verify_signature` may rely on, read off the reviewed method itself rather than assumed:
+    which parameter is the datagram, which one carries the key (the auth payload or its public_key_bin), and where in
+    the returned value the verdict and the signed remainder are (`completion`: the method returns only when the
+    signature is valid, the verdict is its normal completion).
+    """
+
+    def __init__(self, fi, data_param, key_param, key_kind, verdict_idx, remainder_idx, derived) -> None:
+        self.fi, self.data_param, self.key_param, self.key_kind = fi, data_param, key_param, key_kind
+        self.verdict_idx, self.remainder_idx, self.derived = verdict_idx, remainder_idx, derived
+
+    def roles(self):
+        pos = self.fi.params()
+        return (pos.index(self.data_param) if self.data_param in pos else None,
+                pos.index(self.key_param) if self.key_param in pos else None,
+                self.data_param, self.key_param, self.key_kind, self.verdict_idx, self.remainder_idx)
+
+
+_COMPLETION = "completion"
+
+
+def _kw_or_pos(call: ast.Call, index: int, name: str):
+    return arg(call, index, name)
+
+
+def _vs_shape(ctx: Ctx, fi: FuncInfo, r: ast.Return) -> dict:
+    """One return of a `_verify_signature` definition: where the verdict / remainder are and whether they are the right ones."""
+    v = _xs(fi, r.value) if r.value is not None else None
+    out = {"value": v, "verdict_idx": None, "remainder_idx": None, "vcall": None, "remainder": None,
+           "data_param": None, "key_param": None, "key_kind": None}
+
+    def is_vcall(e) -> bool:
+        return isinstance(e, ast.Call) and call_name(e) == "is_valid_signature"
+
+    if isinstance(v, ast.Tuple) and len(v.elts) == 2 and sum(1 for e in v.elts if is_vcall(e)) == 1:
+        vi = 0 if is_vcall(v.elts[0]) else 1
+        out.update(verdict_idx=vi, remainder_idx=1 - vi, vcall=v.elts[vi], remainder=v.elts[1 - vi])
+    elif v is not None and not isinstance(v, ast.Tuple) and not is_vcall(v):
+        # `if not is_valid_signature(...): raise ...` ... `return remainder`: the verdict is the normal completion
+        for f in facts_at(ctx.cfg(fi), r):
+            if f.op == "truthy" and f.pos and not _in_assert(f.atom):
+                e = _xs(fi, f.left)
+                if is_vcall(e):
+                    out.update(verdict_idx=_COMPLETION, remainder_idx=None, vcall=e, remainder=v)
+    vc = out["vcall"]
+    if vc is None:
+        return out
+    k, d = _kw_or_pos(vc, 0, "ec_key"), _kw_or_pos(vc, 1, "data")
+    if isinstance(d, ast.Subscript) and isinstance(d.value, ast.Name) and _is_param_unmodified(fi, d.value.id):
+        out["data_param"] = d.value.id
+    if isinstance(k, ast.Call) and call_name(k) == "key_from_public_bin" and len(k.args) == 1 and not k.keywords:
+        kb = k.args[0]
+        if isinstance(kb, ast.Attribute) and kb.attr == "public_key_bin" and isinstance(kb.value, ast.Name) \
+                and _is_param_unmodified(fi, kb.value.id):
+            out.update(key_param=kb.value.id, key_kind="auth")
+        elif isinstance(kb, ast.Name) and _is_param_unmodified(fi, kb.id):
+            out.update(key_param=kb.id, key_kind="keybin")
+    return out
+
+
+def _vs_base(ctx: Ctx) -> FuncInfo:
+    return ctx.repo.method("EZPackOverlay", "_verify_signature", LC)
+
+
+def _vs_contract(ctx: Ctx) -> _VSContract:
+    cached = getattr(ctx, "_c01_vs", None)
+    if cached is not None:
+        return cached
+    fi = _vs_base(ctx)
+    params = fi.params()
+    if len(params) < 3:
+        raise AnalysisError("anchor-lost: EZPackOverlay._verify_signature takes the datagram and the key container")
+    rets = [n for n in walk_no_nested(fi.node) if isinstance(n, ast.Return)]
+    shapes = [_vs_shape(ctx, fi, r) for r in rets]
+    keys = {(s["data_param"], s["key_param"], s["key_kind"], s["verdict_idx"], s["remainder_idx"]) for s in shapes}
+    vs = None
+    if len(keys) == 1:
+        dp, kp, kk, vi, ri = next(iter(keys))
+        if dp is not None and kp is not None and vi is not None and dp != kp:
+            vs = _VSContract(fi, dp, kp, kk, vi, ri, True)
+    if vs is None:
+        # not recognisable (reported by whole-prefix): callers are judged against the reviewed layout
+        # _verify_signature(self, auth, data) -> (verdict, remainder)
+        vs = _VSContract(fi, params[2], params[1], "auth", 0, 1, False)
+    ctx._c01_vs = vs        # type: ignore[attr-defined]
+    return vs
+
+
+def _is_vs_call(e) -> bool:
+    return isinstance(e, ast.Call) and isinstance(e.func, ast.Attribute) and e.func.attr == "_verify_signature" \
+        and isinstance(e.func.value, ast.Name) and e.func.value.id == "self"
+
+
 def _verify_call_link(ctx: Ctx, fi: FuncInfo, name_expr: ast.AST, rule: str, site: ast.AST) -> tuple[ast.Call | None, int | None]:
-    """`name_expr` must be component idx of a single self._verify_signature(auth, data) call (through local aliases)."""
+    """`name_expr` must be component idx of a single self._verify_signature(...) call (through local aliases)."""
     val, idx = _tuple_component(fi, name_expr)
-    if isinstance(val, ast.Call) and chain(val.func) == "self._verify_signature":
+    if _is_vs_call(val):
         return val, idx
     return None, None
 
@@ -179,11 +764,11 @@ def _check_auth_unpack(ctx: Ctx, fi: FuncInfo, auth_expr: ast.AST, data_name: st
     val, idx = _tuple_component(fi, auth_expr)
     if not (isinstance(val, ast.Call) and chain(val.func) == "self.serializer.unpack_serializable" and idx == 0):
         return False
-    a0, a1, off = arg(val, 0), arg(val, 1, "data"), arg(val, 2, "offset")
+    a0, a1, off = arg(val, 0, "serializable"), arg(val, 1, "data"), arg(val, 2, "offset")
     a0, a1, off = (None if a is None else resolve(fi, a) for a in (a0, a1, off))
     ok = (a0 is not None and chain(a0) == "BinMemberAuthenticationPayload"
           and isinstance(a1, ast.Name) and a1.id == data_name
-          and isinstance(off, ast.Constant) and off.value == 23)
+          and off is not None and ctx.repo.resolve_const(fi.module, off, fi.cls) == 23)
     if ok:
         r = ctx.repo.resolve_name(fi.module, "BinMemberAuthenticationPayload")
         ok = isinstance(r, ClassInfo) and r.module.relpath == "ipv8/messaging/payload_headers.py"
@@ -195,151 +780,667 @@ _ASSERT_REASON = ("the only signature check on the way to the handler is an `ass
 
 
 def _dominating_verification(ctx: Ctx, fi: FuncInfo, facts, site: ast.AST) -> tuple[ast.Call | None, bool]:
-    """(the _verify_signature call whose verdict [0] is known to be truthy at the site through a real branch,
+    """(the _verify_signature call whose verdict is known to be positive at the site through a real branch - or, when
+    _verify_signature itself returns only for valid signatures, through its normal completion -,
     True when such a fact exists only through an assert statement)."""
+    vs = _vs_contract(ctx)
     vcall, asserted = None, False
+    if vs.verdict_idx == _COMPLETION:
+        cfg = ctx.cfg(fi)
+        for c in calls(fi):
+            if _is_vs_call(c):
+                through = cfg.nodes_for(c)
+                nodes = cfg.nodes_for(site)
+                if through and nodes and all(cfg.must_complete(n, through) for n in nodes if cfg.reachable(n)):
+                    vcall = c
+        return vcall, False
     for f in facts:
         if f.op == "truthy" and f.pos:
             vc, idx = _verify_call_link(ctx, fi, f.left, "verify-before-call", site)
-            if vc is not None and idx == 0:
-                if _in_assert(f.atom):
+            if vc is not None and idx == vs.verdict_idx:
+                if _fact_in_assert(f):
                     asserted = True
                 else:
                     vcall = vc
     return vcall, asserted and vcall is None
 
 
+def _vs_call_args(ctx: Ctx, fi: FuncInfo, vcall: ast.Call) -> tuple[ast.AST | None, ast.AST | None]:
+    """(datagram argument, expression of the auth payload whose key is used) of a self._verify_signature(...) call"""
+    vs = _vs_contract(ctx)
+    bound = _bind_call(vcall, vs.fi, receiver=True)
+    if bound is None:
+        return None, None
+    a_data, a_key = bound.get(vs.data_param), bound.get(vs.key_param)
+    if a_key is None or vs.key_kind == "auth":
+        return a_data, a_key
+    kb = resolve(fi, a_key)
+    if isinstance(kb, ast.Attribute) and kb.attr == "public_key_bin":
+        return a_data, kb.value
+    return a_data, None
+
+
+def _self_class(ctx: Ctx, fi: FuncInfo) -> ClassInfo | None:
+    """class of `self` in fi: the enclosing class, or - for the wrappers of this module's decorators, which are plain
+    functions - the class their first parameter is annotated with (a TypeVar stands for its bound); the decorators of
+    lazy_community.py are written for EZPackOverlay instances"""
+    if fi.cls is not None:
+        return fi.cls
+    a = fi.node.args
+    pos = a.posonlyargs + a.args
+    if not pos:
+        return None
+    ann = pos[0].annotation
+    if isinstance(ann, ast.Constant) and isinstance(ann.value, str):
+        try:
+            ann = ast.parse(ann.value, mode="eval").body
+        except SyntaxError:
+            ann = None
+    if isinstance(ann, ast.Name):
+        r = ctx.repo.resolve_name(fi.module, ann.id)
+        if isinstance(r, ClassInfo):
+            return r
+        if isinstance(r, tuple) and r[0] == "const" and isinstance(r[2], ast.Call) and call_name(r[2]) == "TypeVar":
+            for k in r[2].keywords:
+                if k.arg == "bound":
+                    c = ctx.repo.resolve_class_expr(r[1], k.value)
+                    if c is not None:
+                        return c
+    if fi.module.relpath == LC and pos[0].arg == "self":
+        return ctx.repo.try_cls("EZPackOverlay", LC)
+    return None
+
+
+def _targets(ctx: Ctx, fi: FuncInfo, call: ast.Call) -> list[FuncInfo]:
+    """repo.resolve_call, plus `self.<method>(...)` inside a plain function whose `self` is an overlay instance"""
+    f = call.func
+    if fi.cls is None and isinstance(f, ast.Attribute) and isinstance(f.value, ast.Name) and fi.params() \
+            and f.value.id == fi.params()[0] and not local_defs(fi, f.value.id):
+        c = _self_class(ctx, fi)
+        if c is not None:
+            return ctx.repo.dispatch(c, f.attr)
+    try:
+        return ctx.repo.resolve_call(fi, call)
+    except Exception:  # noqa: BLE001
+        return []
+
+
+def _from_calls(fi: FuncInfo, e: ast.AST, calls_: list, idx, depth: int = 4) -> bool:
+    """does e denote component idx (None: the whole result) of one of calls_ - on EVERY definition that can reach it?"""
+    e = strip_cast(e)
+    if depth <= 0:
+        return False
+    if isinstance(e, ast.Call):
+        return idx is None and any(e is c for c in calls_)
+    if isinstance(e, ast.Subscript) and isinstance(e.slice, ast.Constant) and idx is not None and e.slice.value == idx \
+            and not isinstance(e.slice.value, bool):
+        return _from_calls(fi, e.value, calls_, None, depth - 1)
+    if isinstance(e, ast.Name) and e.id not in fi.params():
+        defs = local_defs(fi, e.id)
+        if not defs:
+            return False
+        for _, val, i in defs:
+            if val is None:
+                return False
+            if i is None:
+                if not _from_calls(fi, val, calls_, idx, depth - 1):
+                    return False
+            elif not (i == idx and _from_calls(fi, val, calls_, None, depth - 1)):
+                return False
+        return True
+    return False
+
+
+class _Verified:
+    """a successful verification that dominates a site: directly (`vcall`: the self._verify_signature call; `a_auth`:
+    the auth payload expression whose key verified) or through helper(s) that return only verified material (`ucalls`:
+    the calls - one of them has completed -, `auth_idx` / `key_idx`: where their result carries the verified auth payload
+    / the verified key; auth_idx None with has_auth: the result itself is the auth payload)"""
+
+    def __init__(self, fi, vcall=None, a_auth=None, ucalls=(), auth_idx=None, has_auth=True, key_idx=None) -> None:
+        self.fi, self.vcall, self.a_auth = fi, vcall, a_auth
+        self.ucalls, self.auth_idx, self.has_auth, self.key_idx = list(ucalls), auth_idx, has_auth, key_idx
+
+    def is_auth(self, e: ast.AST) -> bool:
+        """does expression e (of the same function) denote the verified auth payload?"""
+        fi = self.fi
+        if self.vcall is not None:
+            return self.a_auth is not None and _xnorm(fi, e) == _xnorm(fi, self.a_auth)
+        return self.has_auth and _from_calls(fi, e, self.ucalls, self.auth_idx)
+
+    def is_key(self, k: ast.AST) -> bool:
+        """does expression k denote <verified auth>.public_key_bin ?"""
+        fi = self.fi
+        for x in (strip_cast(k), resolve(fi, k), _expand(fi, k)):
+            if isinstance(x, ast.Attribute) and x.attr == "public_key_bin" and self.is_auth(x.value):
+                return True
+        return self.vcall is None and self.key_idx is not None \
+            and _from_calls(fi, k, self.ucalls, None if self.key_idx == "whole" else self.key_idx)
+
+
+def _quiet(ctx: Ctx) -> Ctx:
+    """a scratch context (same repository, same CFG cache): lets a rule be asked as a question"""
+    sub = Ctx(ctx.prop, ctx.repo, ctx.tier)
+    sub._cfgs = ctx._cfgs
+    for k in ("_c01_vs", "_c01_unpackers"):
+        if hasattr(ctx, k):
+            setattr(sub, k, getattr(ctx, k))
+    return sub
+
+
+def _unpacker_summary(ctx: Ctx, h: FuncInfo, replay: bool = True) -> dict | None:
+    """
+    Is h a helper that hands out verified material only - every return dominated by a positive verdict on its datagram
+    parameter with the key carried in it, payloads decoded from the signed remainder (the very conditions checked for
+    _ez_unpack_auth)?  -> {'data_param', 'auth_idx' (component of the result that is the verified auth payload; None:
+    the result itself), 'has_auth'} or None.  Evaluated on a scratch context; on success the checks are replayed on the
+    real one so that they are counted.
+    """
+    cache = getattr(ctx, "_c01_unpackers", None)
+    if cache is None:
+        cache = {}
+        ctx._c01_unpackers = cache        # type: ignore[attr-defined]
+    k = id(h.node)
+    if k in cache:
+        return cache[k]
+    cache[k] = None                       # recursion guard
+    if h.is_async or h.node.decorator_list or any(isinstance(n, (ast.Yield, ast.YieldFrom)) for n in walk_no_nested(h.node)) \
+            or len(h.params()) < 2:
+        return None
+    if not any(_is_vs_call(c) for c in calls(h)):
+        # no verification of its own: only worth a look when it goes through another such helper of the overlay
+        inner = [c for c in calls(h) if isinstance(c.func, ast.Attribute) and isinstance(c.func.value, ast.Name)
+                 and c.func.value.id == h.params()[0] and h.cls is not None
+                 and not _is_vs_call(c) and c.func.attr != h.name]
+        ok = False
+        for c in inner:
+            ts = ctx.repo.dispatch(h.cls, c.func.attr)
+            if ts and len(ts) <= 4 and all(_unpacker_summary(ctx, t, replay) is not None for t in ts):
+                ok = True
+        if not ok:
+            return None
+    sub = _quiet(ctx)
+    try:
+        summ = _check_unpack_auth(sub, h, strict_first=False)
+    except AnalysisError:
+        return None
+    if sub.findings or summ is None:
+        if sub.findings:
+            why = getattr(ctx, "_c01_unpacker_why", None)
+            if why is None:
+                why = ctx._c01_unpacker_why = {}          # type: ignore[attr-defined]
+            why[h.qualname] = sub.findings[0].human()
+        return None
+    if replay:
+        _check_unpack_auth(ctx, h, strict_first=False)
+    cache[k] = summ
+    return summ
+
+
+def _unpacker_calls(ctx: Ctx, fi: FuncInfo, data_name: str, replay: bool = True, skip=()) -> list[tuple[ast.Call, tuple]]:
+    """(call, (auth_idx, has_auth, key_idx)) for every call in fi of helper(s) that hand out verified material only and
+    are given fi's unmodified datagram parameter `data_name`"""
+    out = []
+    for c in calls(fi):
+        if _is_vs_call(c) or not isinstance(c.func, (ast.Name, ast.Attribute)) or any(c is x for x in skip):
+            continue
+        if isinstance(c.func, ast.Attribute) and not (isinstance(c.func.value, ast.Name) and fi.params()
+                                                      and c.func.value.id == fi.params()[0]):
+            continue
+        if isinstance(c.func, ast.Name) and (c.func.id in fi.params() or local_defs(fi, c.func.id)):
+            continue
+        targets = _targets(ctx, fi, c)
+        if not targets or len(targets) > 4 or any(t.node is fi.node for t in targets):
+            continue
+        summs = []
+        for t in targets:
+            sm = _unpacker_summary(ctx, t, replay)
+            if sm is None:
+                summs = None
+                break
+            is_method = t.cls is not None and not any(chain(d) == "staticmethod" for d in t.node.decorator_list)
+            bound = _bind_call(c, t, receiver=is_method)
+            a = bound.get(sm["data_param"]) if bound else None
+            if not (isinstance(a, ast.Name) and a.id == data_name and _is_param_unmodified(fi, data_name)):
+                summs = None
+                break
+            summs.append((sm["auth_idx"], sm["has_auth"], sm["key_idx"]))
+        if summs and len(set(summs)) == 1:
+            out.append((c, summs[0]))
+    return out
+
+
+def _dominating_unpacker(ctx: Ctx, fi: FuncInfo, cfg, site: ast.AST, data_name: str):
+    """calls of helper(s) that hand out verified material only, one of which has completed normally on every path to
+    the site (e.g. a first attempt and the fallback in its except clause) -> _Verified or None"""
+    nodes = [n for n in cfg.nodes_for(site) if cfg.reachable(n)]
+    cands = _unpacker_calls(ctx, fi, data_name)
+    if not nodes or not cands:
+        return None
+    kinds = {k for _, k in cands}
+    for kind in kinds:
+        group = [c for c, k in cands if k == kind]
+        through = [n for c in group for n in cfg.nodes_for(c)]
+        if any(n in through for n in nodes) and not isinstance(site, ast.Return):
+            continue
+        if through and all(n in through or cfg.must_complete(n, through) for n in nodes):
+            return _Verified(fi, ucalls=group, auth_idx=kind[0], has_auth=kind[1], key_idx=kind[2])
+    return None
+
+
+def _check_verified_site(ctx: Ctx, fi: FuncInfo, site: ast.AST, label: str, data_name: str, what: str, unverified: str):
+    """verify-before-call at one site (handler call / return of payloads): -> _Verified or None"""
+    cfg = ctx.cfg(fi)
+    facts = _site_facts(ctx, fi, cfg, site)
+    vcall, asserted = _dominating_verification(ctx, fi, facts, site)
+    through = None
+    if vcall is None:
+        through = _dominating_unpacker(ctx, fi, cfg, site, data_name)
+    if through is not None:
+        ctx.check(True, "verify-before-call", fi, site,
+                  f"{label}: {what} dominated by the normal completion of `{norm(through.ucalls[0].func)}`, which returns only "
+                  "after a positive _verify_signature(...) verdict on the datagram (checked there)", "", [str(f) for f in facts])
+        return through
+    if vcall is None and not asserted:
+        for hq, hw in sorted(getattr(ctx, "_c01_unpacker_why", {}).items()):
+            if any(call_name(c) == hq.rsplit(".", 1)[-1] for c in calls(fi)):
+                unverified += f" (the helper {hq} it goes through does not guarantee one: {hw})"
+    ctx.check(vcall is not None, "verify-before-call", fi, site,
+              f"{label}: {what} dominated by a positive _verify_signature(...) verdict (a real branch, not an assert)",
+              _ASSERT_REASON if asserted else unverified, [str(f) for f in facts])
+    if vcall is None:
+        return None
+    a_data, a_auth = _vs_call_args(ctx, fi, vcall)
+    ok_data = isinstance(a_data, ast.Name) and a_data.id == data_name and _is_param_unmodified(fi, data_name)
+    ctx.check(ok_data, "verify-before-call", fi, vcall,
+              f"{label}: verification is given the unmodified datagram parameter `{data_name}`",
+              "signature verification does not receive the complete, unmodified datagram")
+    ok_auth = a_auth is not None and _check_auth_unpack(ctx, fi, a_auth, data_name, vcall, "verify-before-call")
+    ctx.check(ok_auth, "verify-before-call", fi, vcall,
+              f"{label}: key container is BinMemberAuthenticationPayload unpacked from the datagram at offset 23",
+              "the verification key is not the one carried in this datagram")
+    return _Verified(fi, vcall=vcall, a_auth=a_auth)
+
+
+def _returned_function(ctx: Ctx, fi: FuncInfo, depth: int = 3) -> FuncInfo | None:
+    """the function object fi returns on every path: a closure defined in fi, or what a factory of this module returns"""
+    found = []
+    for r in walk_no_nested(fi.node):
+        if not isinstance(r, ast.Return):
+            continue
+        v = strip_cast(resolve(fi, r.value)) if r.value is not None else None
+        got = None
+        # functools.wraps(f)(closure) / update_wrapper(closure, f) return the closure itself
+        if isinstance(v, ast.Call) and isinstance(v.func, ast.Call) and call_name(v.func) == "wraps" and len(v.args) == 1 \
+                and not v.keywords:
+            v = strip_cast(resolve(fi, v.args[0]))
+        elif isinstance(v, ast.Call) and call_name(v) == "update_wrapper" and v.args:
+            v = strip_cast(resolve(fi, v.args[0]))
+        if isinstance(v, ast.Name):
+            for n in walk_no_nested(fi.node):
+                if isinstance(n, (ast.FunctionDef, ast.AsyncFunctionDef)) and n is not fi.node and n.name == v.id \
+                        and not local_defs(fi, v.id):
+                    got = ctx.repo.info(n)
+        elif isinstance(v, ast.Call) and isinstance(v.func, ast.Name) and depth > 0 and not local_defs(fi, v.func.id):
+            g = ctx.repo.resolve_name(fi.module, v.func.id)
+            if isinstance(g, FuncInfo) and g.cls is None and g.module is fi.module and g.node is not fi.node:
+                got = _returned_function(ctx, g, depth - 1)
+        if got is None:
+            return None
+        found.append(got)
+    if found and all(f.node is found[0].node for f in found):
+        return found[0]
+    return None
+
+
+def _find_wrapper(ctx: Ctx, deco: str) -> tuple[FuncInfo, str]:
+    """(the function that receives (self, address, datagram) for a handler decorated with `deco`, name of the handler):
+    deco(*payloads) returns the decorator (its own closure or one made by a factory), which returns the wrapper"""
+    top = ctx.repo.func(LC, deco)
+    d = _returned_function(ctx, top)
+    w = _returned_function(ctx, d) if d is not None and len(d.params()) == 1 else None
+    if w is None or len(w.params()) < 3 or w.node.args.vararg is not None:
+        raise AnalysisError(f"anchor-lost: {deco} wrapper signature")
+    return w, d.params()[0]
+
+
+def _closures_calling(fi: FuncInfo, fname: str) -> list[tuple[ast.AST, ast.Call]]:
+    """(nested def / lambda directly inside fi, call of `fname` in it)"""
+    out = []
+    for n in walk_no_nested(fi.node):
+        if n is fi.node or not isinstance(n, (ast.FunctionDef, ast.AsyncFunctionDef, ast.Lambda)):
+            continue
+        for c in ast.walk(n):
+            if isinstance(c, ast.Call) and chain(c.func) == fname:
+                out.append((n, c))
+    return out
+
+
+def _auth_deco_of_call(ctx: Ctx, fi: FuncInfo, e: ast.AST) -> str | None:
+    """name of the authenticating decorator when e is `lazy_wrapper(...)` / `lazy_wrapper_wd(...)` of this module"""
+    if isinstance(e, ast.Call) and isinstance(e.func, ast.Name):
+        t = ctx.repo.resolve_name(fi.module, e.func.id)
+        if isinstance(t, FuncInfo) and t.module.relpath == LC and t.name in AUTH_DECOS and t.cls is None:
+            return t.name
+    return None
+
+
+def _check_delegation(ctx: Ctx, deco: str, fi: FuncInfo, fname: str, inner: ast.AST, call: ast.Call) -> None:
+    """
+    The handler is called from a local closure of the wrapper.  That is as good as a dominated call iff the closure is
+    itself an authenticated handler: wrapped (decorator, or `lazy_wrapper(..)(closure)`) by an authenticating decorator
+    whose own wrapper verifies directly, reachable only through that wrapping, invoked with the wrapper's own
+    (self, address, datagram), and handing on the peer / payloads it was given by the verifying wrapper.
+    """
+    repo = ctx.repo
+    params = fi.params()
+    label = f"{deco} (delegating)"
+    from ..model import parent
+    # --- which authenticating decorator wraps the closure, and what denotes the wrapped closure in fi
+    target = None
+    wrapped_is = None            # predicate: expression denotes the wrapped closure
+    if isinstance(inner, (ast.FunctionDef, ast.AsyncFunctionDef)) and inner.decorator_list:
+        info = repo.info(inner)
+        if classify_handler(ctx, info) == "authenticated":
+            for d in inner.decorator_list:
+                target = target or _auth_deco_of_call(ctx, fi, d)
+        name = inner.name
+        rebound = len(local_defs(fi, name)) > 0
+        if target is not None and not rebound:
+            def wrapped_is(e, name=name):
+                return isinstance(e, ast.Name) and e.id == name
+        inside = {id(n) for n in ast.walk(inner)}
+        loads = [n for n in ast.walk(fi.node) if isinstance(n, ast.Name) and n.id == name and isinstance(n.ctx, ast.Load)
+                 and id(n) not in inside]
+    else:
+        # undecorated closure: every mention must be the single argument of `<auth decorator>(...)(closure)`
+        if isinstance(inner, ast.Lambda):
+            mentions_ = [inner]
+        else:
+            mentions_ = [n for n in walk_no_nested(fi.node) if isinstance(n, ast.Name) and n.id == inner.name
+                         and isinstance(n.ctx, ast.Load)]
+            if local_defs(fi, inner.name):
+                mentions_ = []
+        apps = []
+        for m in mentions_:
+            p = parent(m)
+            t = _auth_deco_of_call(ctx, fi, p.func) if isinstance(p, ast.Call) and len(p.args) == 1 and p.args[0] is m \
+                and not p.keywords else None
+            apps.append((p, t))
+        if apps and all(t is not None for _, t in apps) and len({t for _, t in apps}) == 1:
+            target = apps[0][1]
+            app_nodes = [p for p, _ in apps]
+
+            def wrapped_is(e, app_nodes=app_nodes):
+                r = resolve(fi, e)
+                return any(r is a for a in app_nodes)
+        loads = []
+        if target is not None:
+            for a in app_nodes:
+                loads.append(a)
+            loads += [n for n in walk_no_nested(fi.node) if isinstance(n, ast.Name) and isinstance(n.ctx, ast.Load)
+                      and single_def(fi, n.id) is not None and any(resolve(fi, n) is a for a in app_nodes)]
+    grounded = False
+    if target is not None and target != deco:
+        tw, tf = _find_wrapper(ctx, target)
+        grounded = bool(calls(tw, tf))          # the other decorator's wrapper calls its handler itself (checked there)
+    ctx.check(target is not None and wrapped_is is not None and grounded, "verify-before-call", fi, call,
+              f"{label}: handler called from a closure that is wrapped by a directly verifying authenticating decorator",
+              "the wrapped handler can be reached without a successful signature verification (it is called from a local "
+              "closure that is not itself wrapped by a verifying decorator)")
+    if target is None or wrapped_is is None or not grounded:
+        return
+    # --- the wrapped closure is only ever called, with the wrapper's own (self, address, datagram)
+    ok_uses = True
+    for n in loads:
+        p = parent(n)
+        if isinstance(p, ast.Assign) and p.value is n:
+            continue                                  # bound to a local: its loads are in the list as well
+        if not (isinstance(p, ast.Call) and p.func is n):
+            ok_uses = False
+            continue
+        got = [a.id if isinstance(a, ast.Name) else None for a in p.args]
+        if got != params[:3] or p.keywords or not all(_is_param_unmodified(fi, x) for x in params[:3]):
+            ok_uses = False
+    ctx.check(ok_uses, "verify-before-call", fi, inner if not isinstance(inner, ast.Lambda) else call,
+              f"{label}: the verifying closure is only invoked, with the wrapper's own (self, address, datagram)",
+              "the verifying closure is handed something other than the received datagram (or escapes): the handler "
+              "runs for bytes that are not the datagram that was received")
+    # --- inside the closure: peer and payloads are the ones the verifying wrapper passed in
+    ia = inner.args
+    ipos = [x.arg for x in ia.posonlyargs + ia.args]
+    own = set(ipos) | ({ia.vararg.arg} if ia.vararg else set())
+
+    own_args = {id(x) for x in ia.posonlyargs + ia.args + ia.kwonlyargs + [y for y in (ia.vararg, ia.kwarg) if y is not None]}
+
+    def assigned_in_closure(name: str) -> bool:
+        for n in ast.walk(inner):
+            if isinstance(n, ast.Name) and n.id == name and isinstance(n.ctx, (ast.Store, ast.Del)):
+                return True
+            if isinstance(n, ast.arg) and n.arg == name and id(n) not in own_args:
+                return True          # shadowed in a nested scope: not followed
+        return False
+
+    peer = call.args[1] if len(call.args) >= 2 else None
+    ok_peer = len(ipos) >= 2 and isinstance(peer, ast.Name) and peer.id == ipos[1] and not assigned_in_closure(ipos[1])
+    ctx.check(ok_peer, "peer-from-auth-key", fi, call,
+              f"{label}: the peer handed on is the one the verifying wrapper built from the verified key",
+              "the peer handed to the handler is not derived from the verified key")
+    ok_pay = True
+    rest = list(call.args[2:]) + [k.value for k in call.keywords]
+    flat = []
+    for a in rest:
+        if isinstance(a, ast.Starred) and isinstance(a.value, (ast.List, ast.Tuple)):
+            flat.extend(a.value.elts)
+        else:
+            flat.append(a)
+    for a in flat:
+        e = a.value if isinstance(a, ast.Starred) else a
+        if not isinstance(e, ast.Name):
+            ok_pay = False
+        elif e.id in own:
+            ok_pay = ok_pay and not assigned_in_closure(e.id)
+        else:
+            ok_pay = ok_pay and e.id == params[2] and _is_param_unmodified(fi, params[2]) and not isinstance(a, ast.Starred)
+    ctx.check(ok_pay, "payload-from-signed-bytes", fi, call,
+              f"{label}: payload arguments are the ones decoded by the verifying wrapper (plus the raw datagram)",
+              "payloads handed to the handler are decoded from bytes other than the signed remainder")
+
+
+def _check_unpack_auth(ctx: Ctx, fi: FuncInfo, strict_first: bool = True) -> dict | None:
+    """
+    Every return (of a value) of fi hands out verified material only.  strict_first: the reviewed _ez_unpack_auth
+    contract (the verified auth payload is the first component of the result).  -> summary for callers, None when the
+    returns disagree about where the auth payload is.
+    """
+    params = fi.params()
+    if len(params) < 2:
+        raise AnalysisError(f"anchor-lost: {fi.qualname} signature")
+    # the datagram is the parameter that is handed to the verification (reviewed position: last)
+    data_name = params[2] if len(params) > 2 else params[-1]
+    cands = set()
+    for c in calls(fi):
+        if _is_vs_call(c):
+            a_data, _ = _vs_call_args(ctx, fi, c)
+            if isinstance(a_data, ast.Name) and a_data.id in params:
+                cands.add(a_data.id)
+        elif isinstance(c.func, ast.Attribute) and isinstance(c.func.value, ast.Name) and c.func.value.id == "self" and fi.cls:
+            for t in _targets(ctx, fi, c):
+                sm = getattr(ctx, "_c01_unpackers", {}).get(id(t.node)) if t.node is not fi.node else None
+                bound = _bind_call(c, t, receiver=True) if sm else None
+                a = bound.get(sm["data_param"]) if bound else None
+                if isinstance(a, ast.Name) and a.id in params:
+                    cands.add(a.id)
+    if len(cands) == 1:
+        data_name = next(iter(cands))
+    label = fi.name
+    rets = [n for n in walk_no_nested(fi.node) if isinstance(n, ast.Return) and n.value is not None]
+    ctx.anchor(rets, f"{fi.qualname} return")
+    where = set()
+    for r in rets:
+        ver = _check_verified_site(
+            ctx, fi, r, label, data_name, "return",
+            f"{label} can return payloads without a successful signature verification")
+        if ver is None:
+            where.add("unverified")
+            continue
+        rv = _expand(fi, r.value)
+        comps = list(rv.elts) if isinstance(rv, ast.Tuple) else None
+        raw = strip_cast(resolve(fi, r.value))
+        raw_comps = list(raw.elts) if isinstance(raw, ast.Tuple) else None
+        def find(pred):
+            if comps is None:
+                return None if pred(r.value) else -1
+            for cs in (raw_comps, comps):
+                for i, x in enumerate(cs or []):
+                    if not isinstance(x, ast.Starred) and pred(x):
+                        return i
+            return -1
+        idx, kidx = find(ver.is_auth), find(ver.is_key)
+        where.add((idx, kidx))
+        if strict_first:
+            ctx.check(idx == 0, "peer-from-auth-key", fi, r, f"{label} returns the auth payload that was verified",
+                      "the returned auth payload is not the one whose key verified the signature")
+        if ver.vcall is not None:
+            _payload_source(ctx, fi, r, ver.vcall, label)
+        elif calls(fi, "self.serializer.unpack_serializable_list"):
+            raise AnalysisError(f"undecided: {fi.qualname} decodes payloads itself next to a verifying helper")
+    if len(where) != 1 or "unverified" in where:
+        return None
+    idx, kidx = next(iter(where))
+    return {"data_param": data_name, "auth_idx": None if idx in (None, -1) else idx, "has_auth": idx != -1,
+            "key_idx": None if kidx == -1 else ("whole" if kidx is None else kidx)}
+
+
+def _is_super_delegation(fi: FuncInfo, base: FuncInfo, r: ast.Return) -> bool:
+    """`return super().<same method>(<own parameters, same positions>)` (also spelled Base.<method>(self, ...))"""
+    v = strip_cast(resolve(fi, r.value)) if r.value is not None else None
+    if not (isinstance(v, ast.Call) and isinstance(v.func, ast.Attribute) and v.func.attr == fi.name):
+        return False
+    recv = v.func.value
+    if isinstance(recv, ast.Call) and isinstance(recv.func, ast.Name) and recv.func.id == "super" and not recv.args:
+        bound = _bind_call(v, base, receiver=True)
+    else:
+        return False
+    if bound is None:
+        return False
+    own, theirs = fi.params(), base.params()
+    for p in theirs[1:]:
+        a = bound.get(p)
+        i = theirs.index(p)
+        if not (isinstance(a, ast.Name) and i < len(own) and a.id == own[i] and _is_param_unmodified(fi, a.id)):
+            return False
+    return True
+
+
 def rule_wrappers(ctx: Ctx) -> None:
     repo = ctx.repo
     for deco in sorted(AUTH_DECOS):
-        fi = repo.func(LC, f"{deco}.decorator.wrapper")
-        cfg = ctx.cfg(fi)
+        fi, fname = _find_wrapper(ctx, deco)
         params = fi.params()
-        if len(params) < 3:
-            raise AnalysisError(f"anchor-lost: {deco} wrapper signature")
         addr_name, data_name = params[1], params[2]
-        fcalls = ctx.anchor(calls(fi, "func"), f"call of wrapped func in {deco}")
+        fcalls = calls(fi, fname)
+        nested = _closures_calling(fi, fname)
+        ctx.anchor(fcalls or nested, f"call of wrapped func in {deco}")
         for call in fcalls:
-            facts = facts_at(cfg, call)
-            fstr = [str(f) for f in facts]
-            # --- verify-before-call
-            vcall, asserted = _dominating_verification(ctx, fi, facts, call)
-            ctx.check(vcall is not None, "verify-before-call", fi, call,
-                      f"{deco}: handler call dominated by truthy _verify_signature(...)[0] (a real branch, not an assert)",
-                      _ASSERT_REASON if asserted else
-                      "the wrapped handler can be reached without a successful signature verification", fstr)
-            if vcall is not None:
-                a_auth, a_data = arg(vcall, 0), arg(vcall, 1)
-                ok_data = isinstance(a_data, ast.Name) and a_data.id == data_name and _is_param_unmodified(fi, data_name)
-                ctx.check(ok_data, "verify-before-call", fi, vcall,
-                          f"{deco}: verification is given the unmodified datagram parameter `{data_name}`",
-                          "signature verification does not receive the complete, unmodified datagram")
-                ok_auth = a_auth is not None and _check_auth_unpack(ctx, fi, a_auth, data_name, vcall, "verify-before-call")
-                ctx.check(ok_auth, "verify-before-call", fi, vcall,
-                          f"{deco}: key container is BinMemberAuthenticationPayload unpacked from the datagram at offset 23",
-                          "the verification key is not the one carried in this datagram")
+            ver = _check_verified_site(
+                ctx, fi, call, deco, data_name, "handler call",
+                "the wrapped handler can be reached without a successful signature verification")
+            if ver is not None:
                 # --- payloads come from the signed remainder
-                _payload_source(ctx, fi, call, vcall, deco)
+                if ver.vcall is not None:
+                    _payload_source(ctx, fi, call, ver.vcall, deco)
+                elif calls(fi, "self.serializer.unpack_serializable_list"):
+                    raise AnalysisError(f"undecided: the {deco} wrapper decodes payloads itself next to a verifying helper")
                 # --- peer-from-auth-key
-                _peer_arg(ctx, fi, call, a_auth, addr_name, deco)
-            # the raise on invalid signature must really leave the function
-        # every normal exit that returns a value passes through the func call or raises
-    fi = repo.method("EZPackOverlay", "_ez_unpack_auth", LC)
-    cfg = ctx.cfg(fi)
-    data_name = fi.params()[2]
-    rets = [n for n in walk_no_nested(fi.node) if isinstance(n, ast.Return) and n.value is not None]
-    ctx.anchor(rets, "_ez_unpack_auth return")
-    for r in rets:
-        facts = facts_at(cfg, r)
-        vcall, asserted = _dominating_verification(ctx, fi, facts, r)
-        ctx.check(vcall is not None, "verify-before-call", fi, r,
-                  "_ez_unpack_auth: return dominated by truthy signature check (a real branch, not an assert)",
-                  _ASSERT_REASON if asserted else
-                  "_ez_unpack_auth can return payloads without a successful signature verification",
-                  [str(f) for f in facts])
-        if vcall is not None:
-            a_auth, a_data = arg(vcall, 0), arg(vcall, 1)
-            ctx.check(isinstance(a_data, ast.Name) and a_data.id == data_name and _is_param_unmodified(fi, data_name),
-                      "verify-before-call", fi, vcall, "_ez_unpack_auth: verification gets the unmodified datagram",
-                      "signature verification does not receive the complete, unmodified datagram")
-            ctx.check(a_auth is not None and _check_auth_unpack(ctx, fi, a_auth, data_name, vcall, ""),
-                      "verify-before-call", fi, vcall, "_ez_unpack_auth: key container unpacked from the datagram at offset 23",
-                      "the verification key is not the one carried in this datagram")
-            # returned auth is the verified one
-            rv = _expand(fi, r.value)
-            first = rv.elts[0] if isinstance(rv, ast.Tuple) and rv.elts else None
-            ctx.check(first is not None and a_auth is not None and same_expr(strip_cast(first), a_auth),
-                      "peer-from-auth-key", fi, r, "_ez_unpack_auth returns the auth payload that was verified",
-                      "the returned auth payload is not the one whose key verified the signature")
-            _payload_source(ctx, fi, r, vcall, "_ez_unpack_auth")
+                _peer_arg(ctx, fi, call, ver, addr_name, deco)
+        for inner, call in nested:
+            _check_delegation(ctx, deco, fi, fname, inner, call)
+    base = repo.method("EZPackOverlay", "_ez_unpack_auth", LC)
+    if len(base.params()) < 3:
+        raise AnalysisError("anchor-lost: EZPackOverlay._ez_unpack_auth signature")
+    _check_unpack_auth(ctx, base)
+    # manual handlers call self._ez_unpack_auth: an override in a subclass is what they get
+    for o in repo.dispatch(base.cls, "_ez_unpack_auth"):
+        if o is base:
+            continue
+        rets = [n for n in walk_no_nested(o.node) if isinstance(n, ast.Return)]
+        if rets and all(_is_super_delegation(o, base, r) for r in rets):
+            ctx.instance("verify-before-call", o.where, f"{o.qualname}: pure delegation to the reviewed _ez_unpack_auth")
+            continue
+        _check_unpack_auth(ctx, o)
 
 
 def _payload_source(ctx: Ctx, fi: FuncInfo, site: ast.AST, vcall: ast.Call, label: str) -> None:
     """Every unpack_serializable_list whose result reaches the site decodes the `remainder` from _verify_signature."""
+    vs = _vs_contract(ctx)
     ulist = calls(fi, "self.serializer.unpack_serializable_list")
     ctx.anchor(ulist, f"unpack_serializable_list in {label}")
     for u in ulist:
         src = arg(u, 1, "data")
-        prod, idx = _tuple_component(fi, src) if src is not None else (None, None)
-        ok = prod is vcall and idx == 1
+        if vs.remainder_idx is None:
+            ok = src is not None and resolve(fi, src) is vcall
+        else:
+            prod, idx = _tuple_component(fi, src) if src is not None else (None, None)
+            ok = prod is vcall and idx == vs.remainder_idx
         ctx.check(ok, "payload-from-signed-bytes", fi, u,
                   f"{label}: payloads are decoded from the remainder returned by _verify_signature",
                   "payloads handed to the handler are decoded from bytes other than the signed remainder")
 
 
-def _peer_arg(ctx: Ctx, fi: FuncInfo, call: ast.Call, a_auth: ast.AST | None, addr_name: str, label: str) -> None:
+def _peer_arg(ctx: Ctx, fi: FuncInfo, call: ast.Call, ver: "_Verified", addr_name: str, label: str) -> None:
     peer_arg = call.args[1] if len(call.args) >= 2 else None
     ok = False
     why = "the peer handed to the handler is not derived from the verified key"
-    if peer_arg is not None and a_auth is not None and not isinstance(peer_arg, ast.Starred):
-        # every value the argument can take (`a or b`, conditional expression, a local assigned on several branches):
-        # each must be the registry entry stored under the verified key or a fresh Peer built from the verified key
-        want = norm(a_auth) + ".public_key_bin"
-        registry = "self.network.verified_by_public_key_bin"
-        good = []
-        for alt in _alternatives(fi, peer_arg):
-            e = _expand(fi, alt)
-            if isinstance(e, ast.Call) and chain(e.func) == "Peer":
-                k = arg(e, 0)
-                good.append(k is not None and norm(k) == want
-                            and isinstance(ctx.repo.resolve_name(fi.module, "Peer"), ClassInfo))
-            elif isinstance(e, ast.Call) and chain(e.func) == registry + ".get":
-                k = arg(e, 0)
-                good.append(k is not None and norm(k) == want and len(e.args) == 1 and not e.keywords)
-            elif isinstance(e, ast.Subscript) and chain(e.value) == registry and not isinstance(e.slice, ast.Slice):
-                good.append(norm(e.slice) == want)      # registry[K]: the same entry that .get(K) returns
-            else:
-                good.append(False)
+    registry = "self.network.verified_by_public_key_bin"
+
+    def good_value(e, depth: int = 2) -> bool:
+        """e (expanded) is the registry entry stored under the verified key or a fresh Peer built from the verified key"""
+        if isinstance(e, ast.Call) and chain(e.func) == "Peer":
+            k = arg(e, 0)
+            return k is not None and ver.is_key(k) and isinstance(ctx.repo.resolve_name(fi.module, "Peer"), ClassInfo)
+        if isinstance(e, ast.Call) and chain(e.func) == registry + ".get":
+            k = arg(e, 0)
+            return k is not None and ver.is_key(k) and len(e.args) == 1 and not e.keywords
+        if isinstance(e, ast.Subscript) and chain(e.value) == registry and not isinstance(e.slice, ast.Slice):
+            return ver.is_key(e.slice)                  # registry[K]: the same entry that .get(K) returns
+        if isinstance(e, ast.Call) and depth > 0:
+            # a helper that resolves the sender: every value it can return, in this function's terms
+            cases = _return_cases(ctx, fi, e, 2)
+            if cases:
+                vals = [x for v, _, _ in cases for x in ([None] if v is None else _alternatives(fi, v))]
+                return all(x is not None and good_value(_expand(fi, x), depth - 1) for x in vals)
+        return False
+
+    if peer_arg is not None and ver is not None and not isinstance(peer_arg, ast.Starred):
+        # every value the argument can take (`a or b`, conditional expression, a local assigned on several branches)
+        good = [good_value(_expand(fi, alt)) for alt in _alternatives(fi, peer_arg)]
         ok = bool(good) and all(good)
     ctx.check(ok, "peer-from-auth-key", fi, call,
               f"{label}: peer argument is verified_by_public_key_bin.get(K) / [K] or Peer(K, addr) with K = auth.public_key_bin",
               why)
 
 
-def rule_verify_signature(ctx: Ctx) -> None:
-    fi = ctx.repo.method("EZPackOverlay", "_verify_signature", LC)
-    params = fi.params()
-    auth_name, data_name = params[1], params[2]
-    rets = [n for n in walk_no_nested(fi.node) if isinstance(n, ast.Return)]
-    ctx.anchor(rets, "_verify_signature return")
-    ok_data = _is_param_unmodified(fi, data_name)
-    ok_auth = _is_param_unmodified(fi, auth_name)
-    carried = f"{auth_name}.public_key_bin"
-
-    def is_data(e) -> bool:
-        return isinstance(e, ast.Name) and e.id == data_name
-
-    def none_or_zero(e) -> bool:
-        return e is None or (isinstance(e, ast.Constant) and e.value == 0 and not isinstance(e.value, bool))
-
+def _check_vs_definition(ctx: Ctx, fi: FuncInfo, skip=(), override: bool = False) -> list[dict]:
+    """whole-prefix / payload-from-signed-bytes for one definition of _verify_signature; -> the shapes of its returns"""
+    rets = [n for n in walk_no_nested(fi.node) if isinstance(n, ast.Return) and n not in skip]
+    ctx.anchor(rets, f"{fi.qualname} return")
+    shapes = []
     for r in rets:
-        # all comparisons below are made on fully expanded expressions (single-assignment locals substituted), so it
-        # does not matter which sub-expressions were hoisted into locals or whether the result tuple went through one
-        v = _expand(fi, r.value)
-        first = v.elts[0] if isinstance(v, ast.Tuple) and len(v.elts) == 2 else None
+        # all comparisons below are made on fully expanded expressions (single-assignment locals substituted, slices of
+        # slices composed), so it does not matter which sub-expressions were hoisted into locals, in which order the
+        # verdict and the remainder are returned, or whether the remainder is cut from the datagram or from the signed part
+        sh = _vs_shape(ctx, fi, r)
+        shapes.append(sh)
+        vc = sh["vcall"]
+        data_name, key_param = sh["data_param"], sh["key_param"]
         good = False
         key_txt = None
-        reason = "return value is not (is_valid_signature(...), remainder)"
+        carried = None
+        reason = "return value is not is_valid_signature(...) together with the remainder"
+
+        def is_data(e) -> bool:
+            return data_name is not None and isinstance(e, ast.Name) and e.id == data_name
 
         def siglen_ok(e) -> bool:
             return (isinstance(e, ast.Call) and call_name(e) == "get_signature_length" and len(e.args) == 1
@@ -348,29 +1449,40 @@ def rule_verify_signature(ctx: Ctx) -> None:
         def neg_len(e) -> bool:
             return isinstance(e, ast.UnaryOp) and isinstance(e.op, ast.USub) and siglen_ok(e.operand)
 
-        if isinstance(first, ast.Call) and call_name(first) == "is_valid_signature" and len(first.args) == 3 \
-                and not first.keywords:
-            k, d, s = first.args
-            # key
-            key_ok = (isinstance(k, ast.Call) and call_name(k) == "key_from_public_bin" and arg(k, 0) is not None
-                      and norm(arg(k, 0)) == carried and ok_auth)
+        if vc is not None:
+            k, d, s = _kw_or_pos(vc, 0, "ec_key"), _kw_or_pos(vc, 1, "data"), _kw_or_pos(vc, 2, "signature")
+            n_args = len(vc.args) + len(vc.keywords)
+            key_ok = key_param is not None and n_args == 3
             if isinstance(k, ast.Call):
                 key_txt = norm(k)
-            # L
+                if key_param is not None:
+                    carried = norm(k.args[0])
             d_ok = (isinstance(d, ast.Subscript) and is_data(d.value)
-                    and isinstance(d.slice, ast.Slice) and none_or_zero(d.slice.lower) and d.slice.step is None
+                    and isinstance(d.slice, ast.Slice) and _none_or_zero(d.slice.lower) and d.slice.step is None
                     and d.slice.upper is not None and neg_len(d.slice.upper))
             s_ok = (isinstance(s, ast.Subscript) and is_data(s.value)
                     and isinstance(s.slice, ast.Slice) and s.slice.upper is None and s.slice.step is None
                     and s.slice.lower is not None and neg_len(s.slice.lower))
-            good = key_ok and d_ok and s_ok and ok_data
-            reason = ("is_valid_signature must be given (key_from_public_bin(auth.public_key_bin), data[:-L], data[-L:]) "
-                      f"with L = get_signature_length(that key): key_ok={key_ok} signed_bytes_ok={d_ok} "
-                      f"signature_slice_ok={s_ok} data_unmodified={ok_data}")
+            good = key_ok and d_ok and s_ok
+            reason = ("is_valid_signature must be given (key_from_public_bin(<key carried in the datagram>), data[:-L], "
+                      f"data[-L:]) with L = get_signature_length(that key): key_ok={key_ok} signed_bytes_ok={d_ok} "
+                      f"signature_slice_ok={s_ok} data_unmodified={data_name is not None}")
+        if override:
+            reason = (f"{fi.qualname} overrides _verify_signature - it is what `self._verify_signature(...)` in the "
+                      f"authenticating wrappers runs for every signed handler of {fi.cls.name if fi.cls else '?'} - and does "
+                      "not keep its promise: " + reason)
         ctx.check(good, "whole-prefix", fi, r, "_verify_signature verifies every byte before the signature with the carried key",
                   reason)
         # remainder: data[2+len(pk) : -L]
-        second = v.elts[1] if isinstance(v, ast.Tuple) and len(v.elts) == 2 else None
+        second = sh["remainder"]
+        if second is None and isinstance(sh["value"], ast.Tuple) and len(sh["value"].elts) == 2:
+            second = sh["value"].elts[1]
+        if data_name is None:
+            # verification not recognised: the remainder is judged against the datagram parameter of the reviewed layout
+            ps = fi.params()
+            data_name = ps[2] if len(ps) > 2 and _is_param_unmodified(fi, ps[2]) else None
+            if carried is None and len(ps) > 1:
+                carried = f"{ps[1]}.public_key_bin"
         rem_ok = False
         if isinstance(second, ast.Subscript) and is_data(second.value) and isinstance(second.slice, ast.Slice) \
                 and second.slice.upper is not None and second.slice.step is None:
@@ -380,11 +1492,42 @@ def rule_verify_signature(ctx: Ctx) -> None:
             up_ok = neg_len(up) if key_txt is not None else (
                 isinstance(up, ast.UnaryOp) and isinstance(up.op, ast.USub) and isinstance(up.operand, ast.Call)
                 and call_name(up.operand) == "get_signature_length")
-            lo_ok = lo is not None and norm(lo) in (f"2 + len({carried})", f"len({carried}) + 2")
-            rem_ok = up_ok and lo_ok and ok_data
+            lo_ok = lo is not None and carried is not None and _sum_terms(lo) == (2, [f"len({carried})"])
+            rem_ok = up_ok and lo_ok
         ctx.check(rem_ok, "payload-from-signed-bytes", fi, r,
                   "remainder = data[2+len(key) : -L] (inside the signed bytes; the auth header is skipped exactly)",
                   "the remainder handed on for payload decoding is not the signed region minus the auth header")
+    return shapes
+
+
+def rule_verify_signature(ctx: Ctx) -> None:
+    base = _vs_base(ctx)
+    vs = _vs_contract(ctx)
+    _check_vs_definition(ctx, base)
+    # `self._verify_signature(...)` in the wrappers is dispatched on the overlay instance: an override in any overlay
+    # class is what the authenticated handlers of that overlay really get, so it has to keep the same promise
+    for o in ctx.repo.dispatch(base.cls, "_verify_signature"):
+        if o is base:
+            continue
+        rets = [n for n in walk_no_nested(o.node) if isinstance(n, ast.Return)]
+        ctx.anchor(rets, f"{o.qualname} return")
+        rest = [r for r in rets if not _is_super_delegation(o, base, r)]
+        for r in rets:
+            if r not in rest:
+                ctx.instance("whole-prefix", o.where, f"{o.qualname}: `{norm(r)}` delegates to the reviewed _verify_signature",
+                             line=r.lineno)
+        if not rest:
+            continue
+        before = len(ctx.findings)
+        shapes = _check_vs_definition(ctx, o, skip=[r for r in rets if r not in rest], override=True)
+        if len(ctx.findings) == before:
+            # same promise also means: same places for datagram / key / verdict / remainder as the reviewed method
+            op, bp = o.params(), base.params()
+            same = all((op.index(s["data_param"]), op.index(s["key_param"]), s["key_kind"], s["verdict_idx"], s["remainder_idx"])
+                       == (bp.index(vs.data_param), bp.index(vs.key_param), vs.key_kind, vs.verdict_idx, vs.remainder_idx)
+                       for s in shapes)
+            ctx.check(same, "whole-prefix", o, o.node, f"{o.qualname}: same parameter / result layout as the reviewed method",
+                      "an override of _verify_signature returns verdict / remainder in other places than the callers read them")
 
 
 def _concat_parts_at(cfg, fi: FuncInfo, node, e: ast.AST, depth: int = 8) -> list[list[ast.AST]] | None:
@@ -401,6 +1544,26 @@ def _concat_parts_at(cfg, fi: FuncInfo, node, e: ast.AST, depth: int = 8) -> lis
         if left is None or right is None:
             return None
         return [a + b for a in left for b in right]
+    if isinstance(e, ast.Call) and isinstance(e.func, ast.Attribute) and e.func.attr == "join" and len(e.args) == 1 \
+            and not e.keywords and isinstance(e.func.value, ast.Constant) and e.func.value.value == b"":
+        # b"".join([a, b, c]) == a + b + c  (the list may sit in a single-assignment local that is not mutated)
+        seq = strip_cast(e.args[0])
+        if isinstance(seq, ast.Name):
+            d = single_def(fi, seq.id)
+            mutated = any(isinstance(n, ast.Attribute) and isinstance(n.value, ast.Name) and n.value.id == seq.id
+                          for n in walk_no_nested(fi.node)) or \
+                any(isinstance(n, ast.Subscript) and isinstance(n.ctx, (ast.Store, ast.Del)) and isinstance(n.value, ast.Name)
+                    and n.value.id == seq.id for n in walk_no_nested(fi.node))
+            seq = strip_cast(d[0]) if d is not None and d[1] is None and not mutated else None
+        if not isinstance(seq, (ast.List, ast.Tuple)) or any(isinstance(x, ast.Starred) for x in seq.elts) or not seq.elts:
+            return None
+        acc: list[list[ast.AST]] = [[]]
+        for x in seq.elts:
+            sub = _concat_parts_at(cfg, fi, node, x, depth - 1)
+            if sub is None:
+                return None
+            acc = [a + b for a in acc for b in sub]
+        return acc
     if isinstance(e, ast.Name) and e.id not in fi.params() and local_defs(fi, e.id):
         defs = {}
         for st, val, idx in local_defs(fi, e.id):
@@ -424,56 +1587,125 @@ def _concat_parts_at(cfg, fi: FuncInfo, node, e: ast.AST, depth: int = 8) -> lis
     return [[e]]
 
 
+def _signature_flow(fi: FuncInfo, cfg, sig: ast.AST) -> tuple[list, bool, bool]:
+    """
+    Where the value of expression `sig` (a signature) ends up inside fi:
+    ([(cfg nodes of the appending statement, buffer expression it is appended to)], returned as such?, lost track?).
+    Followed through cast(), conditional expressions / `or` (the other alternative appends nothing signed), and locals.
+    """
+    from ..model import parent
+    appended, returned, lost = [], False, False
+    todo, seen = [sig], set()
+    while todo:
+        s = todo.pop()
+        if id(s) in seen:
+            continue
+        seen.add(id(s))
+        p = parent(s)
+        while True:
+            if isinstance(p, ast.Call) and strip_cast(p) is s and p is not s:                       # cast(T, sig)
+                s, p = p, parent(p)
+            elif isinstance(p, ast.IfExp) and (p.body is s or p.orelse is s):                        # sig if c else b""
+                s, p = p, parent(p)
+            elif isinstance(p, ast.BoolOp) and isinstance(p.op, ast.Or) and any(v is s for v in p.values):
+                s, p = p, parent(p)
+            else:
+                break
+        if isinstance(p, ast.AugAssign) and isinstance(p.op, ast.Add) and p.value is s and isinstance(p.target, ast.Name):
+            appended.append((cfg.nodes_for(p), p.target))
+        elif isinstance(p, ast.BinOp) and isinstance(p.op, ast.Add) and p.right is s:
+            appended.append((cfg.nodes_for(p), p.left))
+        elif isinstance(p, (ast.Assign, ast.AnnAssign)) and p.value is s:
+            tgts = p.targets if isinstance(p, ast.Assign) else [p.target]
+            if len(tgts) == 1 and isinstance(tgts[0], ast.Name):
+                name = tgts[0].id
+                todo.extend(n for n in walk_no_nested(fi.node) if isinstance(n, ast.Name) and n.id == name
+                            and isinstance(n.ctx, ast.Load))
+            else:
+                lost = True
+        elif isinstance(p, ast.Return) and p.value is s:
+            returned = True
+        elif isinstance(p, ast.Expr):
+            pass                                     # computed and dropped
+        else:
+            lost = True
+    return appended, returned, lost
+
+
 def rule_sign_side(ctx: Ctx) -> None:
     repo = ctx.repo
-    from ..model import enclosing_stmt, parent
-    sites = []
+    from ..model import enclosing_stmt
+    sites = []                          # (function, expression that yields the signature, expression that was signed)
     for fi in repo.all_functions():
         for c in calls(fi, "create_signature"):
             if fi.cls is not None and fi.cls.name == "ECCrypto":
                 continue
             if fi.cls is not None and (fi.cls.is_subclass_of("Overlay")):
-                sites.append((fi, c))
-    ctx.floor("sign-covers-all", len(sites), 2)
-    for fi, c in sites:
+                sites.append((fi, c, arg(c, 1, "data"), 0))
+    # anchor floor: signing sites, plus call sites of the signing functions from other overlay methods (two packers that
+    # were merged into one still sign for two callers)
+    signing = {id(f.node): f for f, _, _, _ in sites}
+    n_delegating = 0
+    if len(sites) < 2:
+        for f in signing.values():
+            for _m, g, call2 in repo.callers_of_name(f.name):
+                if g is not None and g.cls is not None and g.cls.is_subclass_of("Overlay") and id(g.node) not in signing \
+                        and any(t.node is f.node for t in _targets(ctx, g, call2)):
+                    n_delegating += 1
+    ctx.floor("sign-covers-all", len(sites) + n_delegating, 2)
+    done = set()
+    while sites:
+        fi, c, signed, depth = sites.pop(0)
+        if id(c) in done:
+            continue
+        done.add(id(c))
         cfg = ctx.cfg(fi)
         st = enclosing_stmt(c)
-        signed = arg(c, 1)
         nodes = cfg.nodes_for(c)
         ok = False
         reason = "signature is not appended to the very buffer that was signed"
 
-        def texts(alts):
+        def texts(alts, fi=fi):
             return None if alts is None else sorted({tuple(_xnorm(fi, p) for p in parts) for parts in alts})
 
+        # where the signature is appended: `B += sig`, `... = B + sig` / `return B + sig`, sig being the call itself, a
+        # conditional expression around it, or a local that holds it
+        appended_to, returned, lost = _signature_flow(fi, cfg, c)
+        if returned and not appended_to and not lost and depth < 2 and fi.cls is not None \
+                and isinstance(strip_cast(signed), ast.Name) and _is_param_unmodified(fi, strip_cast(signed).id):
+            # a signing helper: returns the signature over its own parameter; what matters is what its callers hand in
+            # and where they put the result
+            pname = strip_cast(signed).id
+            callers = []
+            for _m, g, call2 in repo.callers_of_name(fi.name):
+                if g is None or g.node is fi.node:
+                    continue
+                if not any(t.node is fi.node for t in _targets(ctx, g, call2)):
+                    continue
+                is_method = not any(chain(d) == "staticmethod" for d in fi.node.decorator_list)
+                bound = _bind_call(call2, fi, receiver=is_method)
+                callers.append((g, call2, bound.get(pname) if bound else None, depth + 1))
+            uses = [n for _m, _g, n in repo.attribute_uses(fi.name)]
+            if callers and len(uses) == len(callers):
+                ctx.instance("sign-covers-all", fi.where, f"{fi.qualname}: signs its parameter `{pname}` and returns the "
+                             f"signature; judged at its {len(callers)} call site(s)", line=st.lineno)
+                sites.extend(callers)
+                continue
         signed_alts = None
         if signed is not None and nodes:
             per = [_concat_parts_at(cfg, fi, n, signed) for n in nodes]
             signed_alts = None if any(p is None for p in per) else [a for p in per for a in p]
-        # where the signature is appended: `B += sig`, `... = B + sig` / `return B + sig`, sig being the call itself or
-        # the single-assignment local that holds it
-        sig_exprs = [c] + [n for n in walk_no_nested(fi.node) if isinstance(n, ast.Name) and isinstance(n.ctx, ast.Load)
-                           and resolve(fi, n) is c]
-        appended_to = []            # (cfg nodes of the appending statement, buffer expression)
-        for s in sig_exprs:
-            p = parent(s)
-            while isinstance(p, ast.Call) and strip_cast(p) is s:      # cast(...) around it
-                s, p = p, parent(p)
-            if isinstance(p, ast.AugAssign) and isinstance(p.op, ast.Add) and p.value is s and isinstance(p.target, ast.Name):
-                appended_to.append((cfg.nodes_for(p), p.target))
-            elif isinstance(p, ast.BinOp) and isinstance(p.op, ast.Add) and p.right is s:
-                appended_to.append((cfg.nodes_for(p), p.left))
-        if signed_alts and appended_to:
+        if signed_alts and appended_to and not lost:
             same = True
             for ns, buf in appended_to:
                 per = [_concat_parts_at(cfg, fi, n, buf) for n in ns]
                 got = None if (not per or any(p is None for p in per)) else [a for p in per for a in p]
                 same = same and got is not None and texts(got) == texts(signed_alts)
             # every possible content of the signed buffer: overlay prefix first, then the message id byte, and the payloads
-            def is_prefix(p) -> bool:
+            def is_prefix(p, fi=fi) -> bool:
                 return _xnorm(fi, p) in ("prefix", "self._prefix")
 
-            def is_msg(p) -> bool:
+            def is_msg(p, fi=fi) -> bool:
                 x = _expand(fi, p)
                 return isinstance(x, ast.Call) and chain(x.func) == "bytes"
 
@@ -512,7 +1744,12 @@ def rule_is_valid_signature(ctx: Ctx) -> None:
             vals = []
             for n in cfg.nodes_for(r):
                 if n in seen:
-                    vals.extend([ast.Constant(value=None)] if r.value is None else _values_at(cfg, fi, n, r.value, start))
+                    got = [ast.Constant(value=None)] if r.value is None else _values_at(cfg, fi, n, r.value, start)
+                    if start is not cfg.entry and any(v is _UNBOUND for v in got):
+                        # not assigned since `start`: it still has the value it had when `start` was entered
+                        # (an assignment that raised did not assign)
+                        got = [v for v in got if v is not _UNBOUND] + _values_at(cfg, fi, start, r.value, cfg.entry)
+                    vals.extend(got)
             if vals:
                 out.append((r, vals))
         return out
@@ -594,8 +1831,29 @@ def classify_handler(ctx: Ctx, fi: FuncInfo) -> str:
                 return "cell"
         return f"unknown-decorator:{name}"
     # manual: authenticated iff all effects are reached only after a completed _ez_unpack_auth
+    # (or a helper of the overlay that itself returns only after one / after a positive verdict: followed, see
+    #  _unpacker_summary; several such calls - first attempt, fallback in the except clause - count together)
     cfg = ctx.cfg(fi)
-    ucalls = calls(fi, "self._ez_unpack_auth")
+    params = fi.params()
+    if len(params) < 3:
+        return "raw"
+    data_name = params[2]
+    direct = calls(fi, "self._ez_unpack_auth")
+    for c in direct:
+        a = arg(c, 1, "data")
+        if not (isinstance(a, ast.Name) and a.id == data_name and _is_param_unmodified(fi, data_name)):
+            return "raw"
+    # what each verifying call returns: (position of the verified auth payload, position of the verified key)
+    kinds: dict[int, tuple] = {id(c): (0, True, None) for c in direct}
+    ucalls = list(direct)
+    if fi.cls is not None and fi.cls.is_subclass_of("EZPackOverlay"):
+        try:
+            for c, k in _unpacker_calls(ctx, fi, data_name, replay=ctx.prop == "C01", skip=direct):
+                if id(c) not in kinds:
+                    kinds[id(c)] = k
+                    ucalls.append(c)
+        except AnalysisError:
+            pass
     if not ucalls:
         return "raw"
     unodes = [n for c in ucalls for n in cfg.nodes_for(c)]
@@ -607,29 +1865,218 @@ def classify_handler(ctx: Ctx, fi: FuncInfo) -> str:
         for n in cfg.nodes_for(e):
             if cfg.reachable(n) and not cfg.must_complete(n, unodes):
                 return "raw"
-    params = fi.params()
+    # Peer(...) built from the auth returned by the verifying call(s)
+    # (the key may travel through locals: every value it can take must be <auth>.public_key_bin of such an auth, or the
+    #  verified key itself when the helper hands that out)
+    groups: dict[tuple, list] = {}
     for c in ucalls:
-        a = arg(c, 1, "data")
-        if not (isinstance(a, ast.Name) and a.id == params[2] and _is_param_unmodified(fi, params[2])):
-            return "raw"
-    # Peer(...) built from the auth returned by _ez_unpack_auth
-    # (the key may travel through locals: every value it can take must be <auth>.public_key_bin of such an auth)
+        groups.setdefault(kinds[id(c)], []).append(c)
     for c in calls(fi, "Peer"):
         k = arg(c, 0)
         if k is None:
             return "raw"
         for kk in _alternatives(fi, k):
-            base = kk.value if isinstance(kk, ast.Attribute) and kk.attr == "public_key_bin" else None
-            if not isinstance(base, ast.Name):
-                return "raw"
-            defs = local_defs(fi, base.id)
-            if not defs or not all(d[1] is not None and strip_cast(d[1]) in ucalls and d[2] == 0 for d in defs):
+            good = False
+            for (a_idx, has_auth, k_idx), grp in groups.items():
+                # every definition of the value must come from this group; the other groups then cannot be its source
+                if len(groups) > 1 and not all(cfg.must_complete(n, [m for g in grp for m in cfg.nodes_for(g)])
+                                               for n in cfg.nodes_for(c) if cfg.reachable(n)):
+                    continue
+                if _Verified(fi, ucalls=grp, auth_idx=a_idx, has_auth=has_auth, key_idx=k_idx).is_key(kk):
+                    good = True
+            if not good:
                 return "raw"
     return "manual-authenticated"
 
 
+def _iter_elements(ctx: Ctx, fi: FuncInfo, it: ast.AST, depth: int = 4) -> list[ast.AST] | None:
+    """
+    The values a `for` over `it` binds to its target, when `it` denotes a display (list / tuple / set / dict literal),
+    possibly through a local, a `self.<attr>` assigned exactly once in this function, a class attribute or a module
+    constant, and through .items() / .keys() / .values() / enumerate / sorted / reversed / list / tuple / iter.  Else None.
+    """
+    from ..match import stores
+    it = strip_cast(it)
+    if depth <= 0:
+        return None
+    if isinstance(it, (ast.List, ast.Tuple, ast.Set)):
+        return None if any(isinstance(x, ast.Starred) for x in it.elts) else list(it.elts)
+    if isinstance(it, ast.Dict):
+        return None if any(k is None for k in it.keys) else list(it.keys)
+    if isinstance(it, ast.Name):
+        if it.id in fi.params():
+            return None
+        if local_defs(fi, it.id):
+            d = single_def(fi, it.id)
+            return _iter_elements(ctx, fi, d[0], depth - 1) if d is not None and d[1] is None else None
+        r = ctx.repo.resolve_name(fi.module, it.id)
+        if isinstance(r, tuple) and r[0] == "const":
+            return _iter_elements(ctx, fi, r[2], depth - 1) if r[1] is fi.module else _display_only(r[2])
+        return None
+    if isinstance(it, ast.Attribute) and isinstance(it.value, ast.Name) and it.value.id in ("self", "cls"):
+        st = stores(fi, f"{it.value.id}.{it.attr}")
+        if len(st) == 1 and isinstance(st[0][0], (ast.Assign, ast.AnnAssign)) and st[0][0].value is not None \
+                and not isinstance(st[0][1], ast.Subscript):
+            sub = [x for x in stores(fi, f"{it.value.id}.{it.attr}[]")]
+            if not sub:
+                return _iter_elements(ctx, fi, st[0][0].value, depth - 1)
+            return None
+        if not st and fi.cls is not None:
+            a = fi.cls.lookup_attr(it.attr)
+            return _display_only(a) if a is not None else None
+        return None
+    if isinstance(it, ast.Call) and not it.keywords:
+        f = it.func
+        if isinstance(f, ast.Attribute) and f.attr in ("items", "keys", "values") and not it.args:
+            base = strip_cast(f.value)
+            seen = 0
+            while not isinstance(base, ast.Dict) and seen < 4:
+                seen += 1
+                nxt = None
+                if isinstance(base, ast.Name) and base.id not in fi.params():
+                    d = single_def(fi, base.id)
+                    nxt = d[0] if d is not None and d[1] is None else None
+                elif isinstance(base, ast.Attribute) and isinstance(base.value, ast.Name) and base.value.id == "self":
+                    st = stores(fi, f"self.{base.attr}")
+                    if len(st) == 1 and isinstance(st[0][0], (ast.Assign, ast.AnnAssign)) and not stores(fi, f"self.{base.attr}[]"):
+                        nxt = st[0][0].value
+                if nxt is None:
+                    return None
+                base = strip_cast(nxt)
+            if not isinstance(base, ast.Dict) or any(k is None for k in base.keys):
+                return None
+            if f.attr == "keys":
+                return list(base.keys)
+            if f.attr == "values":
+                return list(base.values)
+            return [ast.Tuple(elts=[k, v], ctx=ast.Load()) for k, v in zip(base.keys, base.values)]
+        if isinstance(f, ast.Name) and len(it.args) == 1 and f.id in ("sorted", "reversed", "list", "tuple", "iter", "set", "frozenset"):
+            return _iter_elements(ctx, fi, it.args[0], depth - 1)
+        if isinstance(f, ast.Name) and f.id == "enumerate" and len(it.args) == 1:
+            inner = _iter_elements(ctx, fi, it.args[0], depth - 1)
+            return None if inner is None else [ast.Tuple(elts=[ast.Constant(value=i), x], ctx=ast.Load())
+                                                for i, x in enumerate(inner)]
+        if isinstance(f, (ast.Name, ast.Attribute)) and not it.args:
+            got = _helper_elements(ctx, fi, it, depth - 1)
+            if got is not None:
+                return got
+        if isinstance(f, ast.Name) and f.id == "range" and 1 <= len(it.args) <= 3:
+            vals = [ctx.repo.resolve_const(fi.module, a, fi.cls) for a in it.args]
+            if all(isinstance(v, int) and not isinstance(v, bool) for v in vals):
+                try:
+                    r = range(*vals)
+                except ValueError:
+                    return None
+                return [ast.Constant(value=i) for i in r] if len(r) <= 1024 else None
+    return None
+
+
+def _helper_elements(ctx: Ctx, fi: FuncInfo, call: ast.Call, depth: int) -> list[ast.AST] | None:
+    """
+    What iterating over the result of an argument-less call of a helper of this repository yields, when the helper only
+    enumerates literal tables: a generator made of `yield <expr>`, `yield from <table>`, `for x in <table>: yield x`
+    statements, or a function that returns such a table.  The elements are the helper's own expressions (`self.on_x`
+    means the same in the caller when both are methods of the same object).
+    """
+    targets = _targets(ctx, fi, call)
+    if len(targets) != 1 or depth <= 0:
+        return None
+    h = targets[0]
+    if h.is_async or h.node.decorator_list and not all(chain(d) in ("staticmethod", "classmethod", "property")
+                                                       for d in h.node.decorator_list):
+        return None
+    if (h.cls is None) != (fi.cls is None) or len(h.params()) > (1 if h.cls is not None else 0):
+        return None
+    body = [b for b in h.node.body if not (isinstance(b, ast.Expr) and isinstance(b.value, ast.Constant))]
+    out: list[ast.AST] = []
+    is_gen = any(isinstance(n, (ast.Yield, ast.YieldFrom)) for n in walk_no_nested(h.node))
+    for i, st in enumerate(body):
+        if is_gen and isinstance(st, ast.Expr) and isinstance(st.value, ast.Yield) and st.value.value is not None:
+            out.append(st.value.value)
+        elif is_gen and isinstance(st, ast.Expr) and isinstance(st.value, ast.YieldFrom):
+            sub = _iter_elements(ctx, h, st.value.value, depth)
+            if sub is None:
+                return None
+            out.extend(sub)
+        elif is_gen and isinstance(st, ast.For) and not st.orelse and len(st.body) == 1 and isinstance(st.body[0], ast.Expr) \
+                and isinstance(st.body[0].value, ast.Yield) and st.body[0].value.value is not None:
+            sub = _iter_elements(ctx, h, st.iter, depth)
+            if sub is None:
+                return None
+            y = st.body[0].value.value
+            if isinstance(st.target, ast.Name):
+                out.extend(_subst_names(y, {st.target.id: el}) for el in sub)
+            elif isinstance(st.target, (ast.Tuple, ast.List)) and all(isinstance(x, ast.Name) for x in st.target.elts) \
+                    and all(isinstance(el, (ast.Tuple, ast.List)) and len(el.elts) == len(st.target.elts) for el in sub):
+                out.extend(_subst_names(y, {x.id: e2 for x, e2 in zip(st.target.elts, el.elts)}) for el in sub)
+            else:
+                return None
+        elif not is_gen and isinstance(st, ast.Return) and st.value is not None and i == len(body) - 1:
+            sub = _iter_elements(ctx, h, st.value, depth)
+            if sub is None:
+                return None
+            out.extend(sub)
+        elif isinstance(st, (ast.Assign, ast.AnnAssign)) and not is_gen:
+            continue                                   # a local table built before the return: followed by _iter_elements
+        else:
+            return None
+    return out or None
+
+
+def _display_only(e: ast.AST | None) -> list[ast.AST] | None:
+    e = strip_cast(e) if e is not None else None
+    if isinstance(e, (ast.List, ast.Tuple, ast.Set)) and not any(isinstance(x, ast.Starred) for x in e.elts):
+        return list(e.elts)
+    if isinstance(e, ast.Dict) and not any(k is None for k in e.keys):
+        return list(e.keys)
+    return None
+
+
+def _loop_bindings(ctx: Ctx, fi: FuncInfo, call: ast.Call) -> list[dict[str, ast.AST]] | None:
+    """
+    One environment (loop variable -> element expression) per iteration of the `for` loops (over displays) that enclose
+    the call inside fi; [{}] when the call is in no loop; None when an enclosing loop cannot be enumerated.
+    """
+    from ..model import ancestors
+    loops = []
+    for a in ancestors(call):
+        if a is fi.node:
+            break
+        if isinstance(a, (ast.For, ast.AsyncFor)):
+            loops.append(a)
+        elif isinstance(a, (ast.While, ast.ListComp, ast.SetComp, ast.DictComp, ast.GeneratorExp)):
+            return None
+    envs: list[dict[str, ast.AST]] = [{}]
+    for lp in reversed(loops):
+        elems = _iter_elements(ctx, fi, lp.iter)
+        if elems is None:
+            return None
+        nxt = []
+        for env in envs:
+            for el in elems:
+                e2 = dict(env)
+                t = lp.target
+                if isinstance(t, ast.Name):
+                    e2[t.id] = el
+                elif isinstance(t, (ast.Tuple, ast.List)) and isinstance(el, (ast.Tuple, ast.List)) and len(t.elts) == len(el.elts) \
+                        and all(isinstance(x, ast.Name) for x in t.elts):
+                    for x, y in zip(t.elts, el.elts):
+                        e2[x.id] = y
+                else:
+                    return None
+                nxt.append(e2)
+        envs = nxt
+        if len(envs) > 4096:
+            return None
+    return envs
+
+
 def registrations(ctx: Ctx):
-    """(registering class, kind, msg expr, handler name, call) for every add_message_handler / add_cell_handler."""
+    """
+    (registering class, kind, msg expr, handler name, call, function) for every registration made by an
+    add_message_handler / add_cell_handler call.  A call inside `for` loops over literal tables stands for one
+    registration per iteration (the handler / message may be the loop variable: it denotes the table's entries).
+    """
     out = []
     for ci in ctx.repo.all_classes():
         if not ci.is_subclass_of("Overlay") and ci.name != "Overlay":
@@ -637,9 +2084,27 @@ def registrations(ctx: Ctx):
         for fi in ci.methods.values():
             for c in calls(fi, ["self.add_message_handler", "self.add_cell_handler"]):
                 kind = call_name(c)
-                h = strip_cast(arg(c, 1, "callback") or arg(c, 1, "handler"))
-                hn = h.attr if isinstance(h, ast.Attribute) and isinstance(h.value, ast.Name) and h.value.id == "self" else None
-                out.append((ci, kind, arg(c, 0), hn, c, fi))
+                h0 = strip_cast(arg(c, 1, "callback") or arg(c, 1, "handler"))
+                envs = _loop_bindings(ctx, fi, c) or [{}]
+                for env in envs:
+                    h = h0
+                    if isinstance(h, ast.Name) and h.id in env:
+                        h = strip_cast(env[h.id])
+                    elif isinstance(h, ast.Name):
+                        h = strip_cast(resolve(fi, h))
+                    hn = h.attr if isinstance(h, ast.Attribute) and isinstance(h.value, ast.Name) and h.value.id == "self" else None
+                    if hn is None and isinstance(h, ast.Call) and isinstance(h.func, ast.Name) and h.func.id == "getattr" \
+                            and len(h.args) == 2 and not h.keywords and isinstance(h.args[0], ast.Name) and h.args[0].id == "self":
+                        # getattr(self, "on_x") with a name that is a literal (possibly the loop's table entry)
+                        nm = h.args[1]
+                        if isinstance(nm, ast.Name) and nm.id in env:
+                            nm = env[nm.id]
+                        nm = ctx.repo.resolve_const(fi.module, strip_cast(nm), fi.cls) if nm is not None else None
+                        hn = nm if isinstance(nm, str) else None
+                    m = arg(c, 0)
+                    if isinstance(m, ast.Name) and m.id in env:
+                        m = env[m.id]
+                    out.append((ci, kind, m, hn, c, fi))
     return out
 
 
@@ -683,6 +2148,87 @@ def rule_handler_table(ctx: Ctx) -> None:
     ctx.floor("handler-auth.authenticated", n_auth, 25)
 
 
+def _dispatch_sites(ctx: Ctx, fi: FuncInfo, cfg) -> list[tuple[ast.Call, list[ast.AST]]]:
+    """
+    Where fi invokes a handler taken from decode_map: [(call in fi, the argument expressions - in fi's terms - that the
+    handler is given)].  Either the callee is a decode_map entry (through locals, or looked up by a helper that returns
+    it), or the call goes to a helper of the overlay that makes the invocation (with a handler it is handed, or one it
+    looks up itself); in the latter case the site that must be guarded is the call of the helper.
+    """
+    out = []
+    for c in calls(fi):
+        nodes = cfg.nodes_for(c)
+        if not nodes:
+            continue
+        direct = any(mentions(a, "self.decode_map") for a in _alternatives(fi, c.func))
+        if not direct and isinstance(c.func, ast.Name):
+            direct = any(v is not None and mentions(v, "self.decode_map")
+                         for v, _, _ in _value_cases(ctx, fi, cfg, nodes[0], c.func))
+        if direct:
+            out.append((c, list(c.args)))
+            continue
+        f = c.func
+        if not (isinstance(f, ast.Attribute) and isinstance(f.value, ast.Name) and f.value.id == "self"):
+            continue
+        targets = _targets(ctx, fi, c)
+        if not targets or len(targets) > 3:
+            continue
+        for t in targets:
+            if t.node is fi.node or t.cls is None:
+                continue
+            bound = _bind_call(c, t, receiver=True)
+            if bound is None:
+                continue
+            for c2 in calls(t):
+                f2 = strip_cast(c2.func)
+                from_map = any(mentions(a, "self.decode_map") for a in _alternatives(t, c2.func))
+                from_param = False
+                if isinstance(f2, ast.Name) and _is_param_unmodified(t, f2.id) and f2.id in bound:
+                    given = bound[f2.id]
+                    from_param = any(mentions(a, "self.decode_map") for a in _alternatives(fi, given)) or \
+                        any(v is not None and mentions(v, "self.decode_map")
+                            for v, _, _ in _value_cases(ctx, fi, cfg, nodes[0], given))
+                if not (from_map or from_param):
+                    continue
+                handed = []
+                for x in c2.args:
+                    x = strip_cast(resolve(t, x))
+                    if isinstance(x, ast.Name) and _is_param_unmodified(t, x.id) and x.id in bound:
+                        handed.append(bound[x.id])
+                out.append((c, handed))
+    return out
+
+
+def _reached_only_from(ctx: Ctx, f: FuncInfo, allowed: tuple[str, ...], depth: int = 3) -> bool:
+    """
+    f is a helper of the allowed member functions: a method of the same class, and every mention of its name anywhere in
+    the repository is the callee of a call made inside an allowed function or inside another such helper.  It then runs
+    only as part of an allowed function and shares its permission.
+    """
+    from ..model import parent
+    if f.cls is None or depth <= 0:
+        return False
+    owners = {a.split(".")[0] for a in allowed}
+    if f.cls.name not in owners:
+        return False
+    uses = list(ctx.repo.attribute_uses(f.name))
+    if not uses:
+        return False
+    for _m, g, node in uses:
+        p = parent(node)
+        if not (isinstance(p, ast.Call) and p.func is node) or g is None or g.node is f.node:
+            return False
+        if g.qualname in allowed:
+            continue
+        if not _reached_only_from(ctx, g, allowed, depth - 1):
+            return False
+    for m in ctx.repo.modules.values():              # never taken as a bare name / string (getattr)
+        for n in ast.walk(m.tree):
+            if isinstance(n, ast.Constant) and n.value == f.name:
+                return False
+    return True
+
+
 def rule_own_prefix(ctx: Ctx) -> None:
     """
     The signature covers the 22-byte overlay prefix, but that binds a signed message to ONE overlay only if the receiving
@@ -696,29 +2242,51 @@ def rule_own_prefix(ctx: Ctx) -> None:
     repo = ctx.repo
     fi = repo.method("Community", "on_packet", "ipv8/community.py")
     cfg = ctx.cfg(fi)
-    hcalls = []
-    for c in calls(fi):
-        if any(mentions(a, "self.decode_map") for a in _alternatives(fi, c.func)):
-            hcalls.append(c)
-    ctx.anchor(hcalls, "call of a decode_map handler in Community.on_packet")
+    hsites = _dispatch_sites(ctx, fi, cfg)
+    ctx.anchor(hsites, "call of a decode_map handler in Community.on_packet")
 
     def own_prefix(e) -> bool:
-        return chain(_expand(fi, e)) == "self._prefix"
+        x = _expand(fi, e)
+        if chain(x) == "self._prefix":
+            return True
+        # an accessor of the overlay: every definition `self.<m>()` can dispatch to returns self._prefix and nothing else
+        if isinstance(x, ast.Call) and not x.args and not x.keywords and isinstance(x.func, ast.Attribute) \
+                and isinstance(x.func.value, ast.Name) and x.func.value.id == "self" and fi.cls is not None:
+            targets = repo.dispatch(fi.cls, x.func.attr)
+            if not targets:
+                return False
+            for t in targets:
+                rets = [n for n in walk_no_nested(t.node) if isinstance(n, ast.Return)]
+                body = [b for b in t.node.body if not (isinstance(b, ast.Expr) and isinstance(b.value, ast.Constant))]
+                if t.is_async or len(rets) != 1 or body != rets or t.node.decorator_list or len(t.params()) != 1 \
+                        or chain(strip_cast(rets[0].value)) != f"{t.params()[0]}._prefix":
+                    return False
+            return True
+        return False
+
+    def buffer_key(e) -> str | None:
+        """identity of a bytes value that cannot change inside this function: a parameter / once-bound local, or a
+        constant-index component of one (`packet[1]`); e is already expanded"""
+        base = e
+        while isinstance(base, ast.Subscript) and isinstance(base.slice, ast.Constant) and isinstance(base.slice.value, int):
+            base = base.value
+        if isinstance(base, ast.Name) and len(local_defs(fi, base.id)) <= 1:
+            return norm(e)
+        return None
 
     def head_of(e) -> str | None:
-        e = _expand(fi, e)
-        if not (isinstance(e, ast.Subscript) and isinstance(e.slice, ast.Slice) and e.slice.step is None
-                and isinstance(e.value, ast.Name)):
+        e = _xs(fi, e)
+        if not (isinstance(e, ast.Subscript) and isinstance(e.slice, ast.Slice) and e.slice.step is None):
             return None
         lo, up = e.slice.lower, e.slice.upper
         if lo is not None and repo.resolve_const(fi.module, lo, fi.cls) != 0:
             return None
         if up is None or repo.resolve_const(fi.module, up, fi.cls) != 22:
             return None
-        return e.value.id
+        return buffer_key(e.value)
 
     def compared_buffer(f) -> str | None:
-        """name of the bytes local whose first 22 bytes the fact compares with self._prefix (either polarity)"""
+        """the bytes value whose first 22 bytes the fact compares with self._prefix (either polarity)"""
         if f.op == "eq" and f.right is not None:
             if own_prefix(f.left):
                 return head_of(f.right)
@@ -727,24 +2295,25 @@ def rule_own_prefix(ctx: Ctx) -> None:
         if f.op == "truthy":
             c = _expand(fi, f.left)
             if isinstance(c, ast.Call) and isinstance(c.func, ast.Attribute) and c.func.attr == "startswith" \
-                    and len(c.args) == 1 and not c.keywords and isinstance(c.func.value, ast.Name) and own_prefix(c.args[0]):
-                return c.func.value.id
+                    and len(c.args) == 1 and not c.keywords and own_prefix(c.args[0]):
+                return buffer_key(c.func.value)
         return None
 
-    for c in hcalls:
-        facts = facts_at(cfg, c)
-        real = [f for f in facts if not _in_assert(f.atom)]
+    def prefix_ish(x) -> bool:
+        return mentions(x, "self._prefix") or mentions(x, lambda c: c.startswith("self.") and c.endswith("prefix()"))
+
+    for c, hargs in hsites:
+        facts = _site_facts(ctx, fi, cfg, c)
+        real = [f for f in facts if not _fact_in_assert(f)]
         checked = {b for b in (compared_buffer(f) for f in real if f.pos) if b is not None}
-        # the bytes handed to the handler: a plain local (bound once, e.g. unpacked from the packet tuple) among the arguments
-        handed = {a.id for a in (_expand(fi, x) for x in c.args if not isinstance(x, ast.Starred))
-                  if isinstance(a, ast.Name) and len(local_defs(fi, a.id)) <= 1}
+        # the bytes handed to the handler: values that cannot change inside the function among the arguments
+        handed = {k for k in (buffer_key(_expand(fi, x)) for x in hargs if not isinstance(x, ast.Starred)) if k is not None}
         ok = bool(checked & handed)
         # a dominating test that relates self._prefix to the dispatched bytes in a spelling not understood here
         # cannot be judged either way
         def relates(f) -> bool:
             x = _expand(fi, f.atom)
-            return (compared_buffer(f) is None and mentions(x, "self._prefix")
-                    and bool({n.id for n in ast.walk(x) if isinstance(n, ast.Name)} & handed))
+            return compared_buffer(f) is None and prefix_ish(x) and any(h in norm(x) for h in handed)
         if not ok and any(relates(f) for f in real):
             raise AnalysisError("undecided: Community.on_packet tests self._prefix before dispatch in a form this rule "
                                 f"does not understand: {[str(f) for f in facts]}")
@@ -773,6 +2342,9 @@ def rule_no_bypass(ctx: Ctx) -> None:
                 where = fi.qualname if fi else "?"
                 allowed = where in ("Community.on_packet", "Community.add_message_handler",
                                     "OverlaysEndpoint.statistics_by_name") or (fi is not None and fi.module.relpath.startswith("ipv8/REST/"))
+                if not allowed and fi is not None:
+                    # a helper that only ever runs as part of on_packet / add_message_handler
+                    allowed = _reached_only_from(ctx, fi, ("Community.on_packet", "Community.add_message_handler"))
                 ctx.check(allowed, "no-bypass", fi or m.relpath, n, f"decode_map read in {where}",
                           "decode_map is read outside Community.on_packet/add_message_handler: handlers could be "
                           "invoked around the prefix check / exception containment")
@@ -787,7 +2359,9 @@ def rule_no_bypass(ctx: Ctx) -> None:
                     if c and (c.endswith(".decode_map[]") or c.endswith(".decode_map")):
                         fi = repo.function_of(n)
                         where = fi.qualname if fi else "?"
-                        ctx.check(where in ("Community.add_message_handler", "Community.__init__"), "no-bypass",
+                        w_ok = where in ("Community.add_message_handler", "Community.__init__") or (
+                            fi is not None and _reached_only_from(ctx, fi, ("Community.add_message_handler", "Community.__init__")))
+                        ctx.check(w_ok, "no-bypass",
                                   fi or m.relpath, n, f"decode_map written in {where}",
                                   "decode_map is written outside add_message_handler: registration checks bypassed")
     # the authenticated decorators are defined once and not rebound
@@ -810,6 +2384,60 @@ def run(ctx: Ctx) -> None:
 
 
 _LC = "ipv8/lazy_community.py"
+_WD_BODY = """            # UNPACK
+            auth, _ = self.serializer.unpack_serializable(BinMemberAuthenticationPayload, data, offset=23)
+            signature_valid, remainder = self._verify_signature(auth, data)
+            unpacked = self.serializer.unpack_serializable_list(payloads, remainder, offset=23)
+            # ASSERT
+            if not signature_valid:
+                payloads_list = [payload_class.__name__ for payload_class in payloads]
+                msg = f"Incoming packet {payloads_list!s} has an invalid signature"
+                raise PacketDecodingError(msg)
+            # PRODUCE
+            output = [*unpacked, data]
+            peer = self.network.verified_by_public_key_bin.get(auth.public_key_bin)
+            if peer:
+                peer.add_address(source_address)
+            return func(self, peer or Peer(auth.public_key_bin, source_address), *output)
+"""
+_WD_VIA_METHODS = """            auth, unpacked = self._unpack_signed(payloads, data)
+            return func(self, self._sender_of(auth, source_address), *unpacked, data)
+"""
+_UNPACK_METHODS = """    def _unpack_signed(self, payloads, data: bytes):
+        auth, _ = self.serializer.unpack_serializable(BinMemberAuthenticationPayload, data, offset=23)
+        signature_valid, remainder = self._verify_signature(auth, data)
+        unpacked = self.serializer.unpack_serializable_list(payloads, remainder, offset=23)
+        if not signature_valid:
+            payloads_list = [payload_class.__name__ for payload_class in payloads]
+            msg = f"Incoming packet {payloads_list!s} has an invalid signature"
+            raise PacketDecodingError(msg)
+        return auth, unpacked
+
+    def _sender_of(self, auth: BinMemberAuthenticationPayload, source_address: Address) -> Peer:
+        peer = self.network.verified_by_public_key_bin.get(auth.public_key_bin)
+        if not peer:
+            return Peer(auth.public_key_bin, source_address)
+        peer.add_address(source_address)
+        return peer
+
+    def _ez_unpack_auth(self,
+"""
+_ONP_GUARD = """        if self._prefix != data[:22] or len(data) < 23:
+            return
+        msg_id = data[22]
+"""
+_ONP_VIA_HELPER = """        msg_id = self._claimed(data, strict=True)
+        if msg_id is None:
+            return
+"""
+_CLAIMED_HELPER = """    def _claimed(self, data: bytes, **options: bool) -> int | None:
+        if len(data) < 23:
+            return None
+        if data[:22] != self._prefix:
+            return None
+        return data[22]
+
+"""
 WITNESSES = [
     {"name": "wrapper: signature check removed", "file": _LC, "rule": "verify-before-call",
      "old": """            if not signature_valid:
@@ -922,4 +2550,158 @@ WITNESSES = [
     {"name": "registration via __wrapped__", "file": "ipv8/attestation/identity/community.py", "rule": "no-bypass",
      "old": "self.add_message_handler(AttestPayload, self.on_attest)",
      "new": "self.add_message_handler(AttestPayload, self.on_attest.__wrapped__)"},
+    {"name": "subclass overrides _verify_signature with a shortcut that skips the cryptography (seeded C01-m8)",
+     "file": "ipv8/dht/discovery.py", "rule": "whole-prefix",
+     "old": "    @lazy_wrapper_wd(PingRequestPayload)\n",
+     "new": """    def _verify_signature(self, auth, data):
+        if id(data) == getattr(self, "_checked_datagram", 0):
+            signature_length = self.crypto.get_signature_length(self.crypto.key_from_public_bin(auth.public_key_bin))
+            return True, data[2 + len(auth.public_key_bin):-signature_length]
+        return super()._verify_signature(auth, data)
+
+    @lazy_wrapper_wd(PingRequestPayload)
+"""},
+    {"name": "subclass override of _verify_signature that only delegates to the reviewed one", "kind": "repaired",
+     "file": "ipv8/dht/discovery.py", "rule": "whole-prefix",
+     "old": "    @lazy_wrapper_wd(PingRequestPayload)\n",
+     "new": """    def _verify_signature(self, auth, data):
+        return super()._verify_signature(auth, data)
+
+    @lazy_wrapper_wd(PingRequestPayload)
+"""},
+    {"name": "subclass override of _verify_signature delegates with a truncated datagram", "file": "ipv8/dht/discovery.py",
+     "rule": "whole-prefix",
+     "old": "    @lazy_wrapper_wd(PingRequestPayload)\n",
+     "new": """    def _verify_signature(self, auth, data):
+        return super()._verify_signature(auth, data[:-1])
+
+    @lazy_wrapper_wd(PingRequestPayload)
+"""},
+    {"name": "wrapper_wd delegates to lazy_wrapper through a decorated closure (same shape as lazy_wrapper_unsigned_wd)",
+     "kind": "repaired", "file": _LC, "rule": "verify-before-call", "old": _WD_BODY,
+     "new": """            @lazy_wrapper(*payloads)
+            def inner_wrapper(inner_self, peer, *pyls):
+                return func(inner_self, peer, *pyls, data)
+            return inner_wrapper(self, source_address, data)
+"""},
+    {"name": "wrapper_wd delegates to the UNSIGNED decorator", "file": _LC, "rule": "verify-before-call", "old": _WD_BODY,
+     "new": """            @lazy_wrapper_unsigned(*payloads)
+            def inner_wrapper(inner_self, peer, *pyls):
+                return func(inner_self, peer, *pyls, data)
+            return inner_wrapper(self, source_address, data)
+"""},
+    {"name": "wrapper_wd delegation verifies other bytes than the received datagram", "file": _LC, "rule": "verify-before-call",
+     "old": _WD_BODY,
+     "new": """            @lazy_wrapper(*payloads)
+            def inner_wrapper(inner_self, peer, *pyls):
+                return func(inner_self, peer, *pyls, data)
+            return inner_wrapper(self, source_address, data[:-1])
+"""},
+    {"name": "wrapper_wd delegation replaces the verified peer", "file": _LC, "rule": "peer-from-auth-key", "old": _WD_BODY,
+     "new": """            @lazy_wrapper(*payloads)
+            def inner_wrapper(inner_self, peer, *pyls):
+                return func(inner_self, self.network.get_verified_by_address(source_address), *pyls, data)
+            return inner_wrapper(self, source_address, data)
+"""},
+    {"name": "wrapper_wd through overlay methods that verify and resolve the sender", "kind": "repaired", "file": _LC,
+     "rule": "verify-before-call",
+     "edits": [{"file": _LC, "old": "    def _ez_unpack_auth(self,\n", "new": _UNPACK_METHODS},
+               {"file": _LC, "old": _WD_BODY, "new": _WD_VIA_METHODS}]},
+    {"name": "wrapper_wd through an overlay method that logs instead of raising", "file": _LC, "rule": "verify-before-call",
+     "edits": [{"file": _LC, "old": "    def _ez_unpack_auth(self,\n",
+                "new": _UNPACK_METHODS.replace("            raise PacketDecodingError(msg)\n        return auth, unpacked",
+                                               "            self.logger.warning(msg)\n        return auth, unpacked")},
+               {"file": _LC, "old": _WD_BODY, "new": _WD_VIA_METHODS}]},
+    {"name": "wrapper_wd through an overlay method that resolves the sender by address", "file": _LC, "rule": "peer-from-auth-key",
+     "edits": [{"file": _LC, "old": "    def _ez_unpack_auth(self,\n",
+                "new": _UNPACK_METHODS.replace("            return Peer(auth.public_key_bin, source_address)",
+                                               "            return self.network.get_verified_by_address(source_address) "
+                                               "or Peer(auth.public_key_bin, source_address)")},
+               {"file": _LC, "old": _WD_BODY, "new": _WD_VIA_METHODS}]},
+    {"name": "on_packet: decision helper (returns the message id or None) keeps the prefix comparison", "kind": "repaired",
+     "file": "ipv8/community.py", "rule": "own-prefix-before-dispatch",
+     "edits": [{"file": "ipv8/community.py", "old": _ONP_GUARD, "new": _ONP_VIA_HELPER},
+               {"file": "ipv8/community.py", "old": "    def walk_to(self, address: Address) -> None:",
+                "new": _CLAIMED_HELPER + "    def walk_to(self, address: Address) -> None:"}]},
+    {"name": "on_packet: decision helper forgets the prefix comparison", "file": "ipv8/community.py",
+     "rule": "own-prefix-before-dispatch",
+     "edits": [{"file": "ipv8/community.py", "old": _ONP_GUARD, "new": _ONP_VIA_HELPER},
+               {"file": "ipv8/community.py", "old": "    def walk_to(self, address: Address) -> None:",
+                "new": _CLAIMED_HELPER.replace("        if data[:22] != self._prefix:\n            return None\n", "")
+                + "    def walk_to(self, address: Address) -> None:"}]},
+    {"name": "on_packet: tag computed under the prefix comparison but overwritten before dispatch", "file": "ipv8/community.py",
+     "rule": "own-prefix-before-dispatch", "old": _ONP_GUARD,
+     "new": """        if len(data) >= 23 and self._prefix == data[:22]:
+            msg_id = data[22]
+        else:
+            msg_id = None
+        if msg_id is None and warn_unknown:
+            return
+        if msg_id is None:
+            msg_id = data[22]
+"""},
+    {"name": "_verify_signature returns (remainder, verdict), remainder cut from the signed part, callers adapted",
+     "kind": "repaired", "file": _LC, "rule": "whole-prefix",
+     "edits": [{"file": _LC, "old": "        remainder = data[2 + len(auth.public_key_bin):-signature_length]\n"
+                                    "        signature = data[-signature_length:]\n"
+                                    "        return ec.is_valid_signature(public_key, data[:-signature_length], signature), remainder\n",
+                "new": "        signed_part, signature = data[:-signature_length], data[-signature_length:]\n"
+                       "        remainder = signed_part[2 + len(auth.public_key_bin):]\n"
+                       "        return remainder, ec.is_valid_signature(public_key, signed_part, signature)\n"},
+               {"file": _LC, "old": "        signature_valid, remainder = self._verify_signature(auth, data)\n"
+                                    "        fmt: list[type[Serializable]]",
+                "new": "        remainder, signature_valid = self._verify_signature(auth, data)\n        fmt: list[type[Serializable]]"},
+               {"file": _LC, "old": "            signature_valid, remainder = self._verify_signature(auth, data)\n"
+                                    "            unpacked = self.serializer.unpack_serializable_list(payloads, remainder, offset=23)\n"
+                                    "            # ASSERT\n            if not signature_valid:\n                msg = (f",
+                "new": "            remainder, signature_valid = self._verify_signature(auth, data)\n"
+                       "            unpacked = self.serializer.unpack_serializable_list(payloads, remainder, offset=23)\n"
+                       "            # ASSERT\n            if not signature_valid:\n                msg = (f"},
+               {"file": _LC, "old": "            signature_valid, remainder = self._verify_signature(auth, data)\n"
+                                    "            unpacked = self.serializer.unpack_serializable_list(payloads, remainder, offset=23)\n"
+                                    "            # ASSERT\n            if not signature_valid:\n                payloads_list",
+                "new": "            remainder, signature_valid = self._verify_signature(auth, data)\n"
+                       "            unpacked = self.serializer.unpack_serializable_list(payloads, remainder, offset=23)\n"
+                       "            # ASSERT\n            if not signature_valid:\n                payloads_list"}]},
+    {"name": "_verify_signature returns (remainder, verdict) but one caller still reads the old order", "file": _LC,
+     "rule": "verify-before-call",
+     "edits": [{"file": _LC, "old": "        return ec.is_valid_signature(public_key, data[:-signature_length], signature), remainder\n",
+                "new": "        return remainder, ec.is_valid_signature(public_key, data[:-signature_length], signature)\n"},
+               {"file": _LC, "old": "        signature_valid, remainder = self._verify_signature(auth, data)\n"
+                                    "        fmt: list[type[Serializable]]",
+                "new": "        remainder, signature_valid = self._verify_signature(auth, data)\n        fmt: list[type[Serializable]]"},
+               {"file": _LC, "old": "            signature_valid, remainder = self._verify_signature(auth, data)\n"
+                                    "            unpacked = self.serializer.unpack_serializable_list(payloads, remainder, offset=23)\n"
+                                    "            # ASSERT\n            if not signature_valid:\n                msg = (f",
+                "new": "            remainder, signature_valid = self._verify_signature(auth, data)\n"
+                       "            unpacked = self.serializer.unpack_serializable_list(payloads, remainder, offset=23)\n"
+                       "            # ASSERT\n            if not signature_valid:\n                msg = (f"}]},
+    {"name": "remainder cut from the signed part skips one byte too few", "file": _LC, "rule": "payload-from-signed-bytes",
+     "old": "remainder = data[2 + len(auth.public_key_bin):-signature_length]",
+     "new": "remainder = data[:-signature_length][1 + len(auth.public_key_bin):]"},
+    {"name": "signing helper is handed only the payload body", "file": _LC, "rule": "sign-covers-all",
+     "old": """        packet = prefix + bytes([msg_num]) + self.serializer.pack_serializable_list(payloads)
+        if sig:
+            packet += default_eccrypto.create_signature(cast("PrivateKey", self.my_peer.key), packet)
+        return packet
+""",
+     "new": """        body = self.serializer.pack_serializable_list(payloads)
+        packet = prefix + bytes([msg_num]) + body
+        if sig:
+            packet += self._signature_over(body, strict=True)
+        return packet
+
+    def _signature_over(self, blob: bytes, **options: bool) -> bytes:
+        return default_eccrypto.create_signature(cast("PrivateKey", self.my_peer.key), blob)
+"""},
+    {"name": "decode_map looked up by a helper that is also reachable from elsewhere", "file": "ipv8/community.py",
+     "rule": "no-bypass",
+     "edits": [{"file": "ipv8/community.py", "old": "        handler = self.decode_map[msg_id]\n",
+                "new": "        handler = self._handler_for(msg_id, strict=True)\n"},
+               {"file": "ipv8/community.py", "old": "    def walk_to(self, address: Address) -> None:",
+                "new": """    def _handler_for(self, msg_id: int, **options: bool):
+        return self.decode_map[msg_id]
+
+    def walk_to(self, address: Address) -> None:
+        self._handler_for(245)(address, b"")"""}]},
 ]
